@@ -790,3 +790,2031 @@ Proof.
     rewrite forallb_forall in H2, H3. apply Forall_forall. intros c Hc.
     apply (texp_ok_wf s (inv_ids s HI) c true); [apply H3|apply H2]; exact Hc.
 Qed.
+
+(** * States with the same structure: everything but stamps, values, the heap, the log and
+      the pass bookkeeping ([status], [stabNum], [setDuring], [setRemoved], [handlers]) *)
+Definition struct_eq (x y : node) : Prop :=
+  nkind x = nkind y /\ decl x = decl y /\ scope x = scope y /\ height x = height y /\
+  hAdj x = hAdj y /\ parents x = parents y /\ children x = children y /\
+  observers x = observers y /\ valid x = valid y /\ forceNec x = forceNec y /\
+  inGraph x = inGraph y.
+
+Record same_struct (s s' : state) : Prop := {
+  ss_next : next s' = next s;
+  ss_binds : binds s' = binds s;
+  ss_has : forall n, has s' n <-> has s n;
+  ss_reg : reg s' = reg s;
+  ss_obs : obs s' = obs s;
+  ss_adj : adj s' = adj s;
+  ss_invq : invq s' = invq s;
+  ss_numNodes : numNodes s' = numNodes s;
+  ss_maxHeight : maxHeight s' = maxHeight s;
+  ss_node : forall n, struct_eq (nd s' n) (nd s n)
+}.
+
+Lemma struct_eq_refl x : struct_eq x x.
+Proof. repeat split. Qed.
+
+Lemma struct_eq_trans x y z : struct_eq x y -> struct_eq y z -> struct_eq x z.
+Proof.
+  intros (?&?&?&?&?&?&?&?&?&?&?) (?&?&?&?&?&?&?&?&?&?&?). repeat split; congruence.
+Qed.
+
+Lemma same_struct_refl s : same_struct s s.
+Proof. split; try reflexivity. intros; apply struct_eq_refl. Qed.
+
+Lemma same_struct_trans s1 s2 s3 : same_struct s1 s2 -> same_struct s2 s3 -> same_struct s1 s3.
+Proof.
+  intros [] []. split; try congruence.
+  - intros n. rewrite ss_has1. apply ss_has0.
+  - intros n. eapply struct_eq_trans; eauto.
+Qed.
+
+(* an update of fields outside the structure *)
+Lemma same_struct_upd s n f : (forall x, struct_eq (f x) x) -> same_struct s (upd s n f).
+Proof.
+  intros Hf. split; try reflexivity.
+  - intros m. apply has_upd.
+  - intros m. destruct (decide (has s n)) as [Hn|Hn].
+    + rewrite nd_upd by exact Hn. destruct (decide (m = n)) as [->|]; [apply Hf|apply struct_eq_refl].
+    + rewrite upd_missing by exact Hn. apply struct_eq_refl.
+Qed.
+
+Lemma same_struct_only_heap s s' : only_heap s s' -> same_struct s s'.
+Proof.
+  intros H. split.
+  - apply (oh_next s s' H).
+  - apply (oh_binds s s' H).
+  - intros n. apply (oh_has s s' H).
+  - apply (oh_reg s s' H).
+  - apply (oh_obs s s' H).
+  - apply (oh_adj s s' H).
+  - apply (oh_invq s s' H).
+  - apply (oh_numNodes s s' H).
+  - apply (oh_maxHeight s s' H).
+  - intros n. rewrite (oh_nd s s' H). apply struct_eq_refl.
+Qed.
+
+Section struct.
+  Context (s s' : state) (HS : same_struct s s').
+  Local Ltac st n := destruct (ss_node s s' HS n) as (Sk & Sd & Ssc & Sh & Shj & Sp & Sc & So & Sv & Sf & Sg).
+
+  Lemma struct_Inv :
+    Inv s -> heap_ok s' -> quiet s' -> stamps_ok s' -> life_ok s' -> Inv s'.
+  Proof.
+    intros [Iids Ibinds Ikinds Iscopes Iscoping Ivalid Iedges Izero Inec Ipar Iheight Iheap
+            Icount Iobs Iquiet Ishape Istamps Ilife] Hheap Hquiet Hstamps Hlife.
+    destruct HS as [Snext Sbinds Shas Sreg Sobs Sadj Sinvq Snum Smh Snode].
+    assert (Hk : forall n, nkind (nd s' n) = nkind (nd s n)) by (intros n; apply Snode).
+    assert (Hd : forall n, decl (nd s' n) = decl (nd s n)) by (intros n; apply Snode).
+    assert (Hsc : forall n, scope (nd s' n) = scope (nd s n)) by (intros n; apply Snode).
+    assert (Hh : forall n, height (nd s' n) = height (nd s n)) by (intros n; apply Snode).
+    assert (Hp : forall n, parents (nd s' n) = parents (nd s n)) by (intros n; apply Snode).
+    assert (Hc : forall n, children (nd s' n) = children (nd s n)) by (intros n; apply Snode).
+    assert (Ho : forall n, observers (nd s' n) = observers (nd s n)) by (intros n; apply Snode).
+    assert (Hv : forall n, valid (nd s' n) = valid (nd s n)) by (intros n; apply Snode).
+    assert (Hf : forall n, forceNec (nd s' n) = forceNec (nd s n)) by (intros n; apply Snode).
+    assert (Hg : forall n, inGraph (nd s' n) = inGraph (nd s n)) by (intros n; apply Snode).
+    constructor; try assumption.
+    - eapply ids_ok_ext; eauto.
+    - eapply binds_wf_ext; eauto.
+    - eapply kinds_ok_ext; eauto.
+    - eapply scopes_ok_ext; eauto.
+    - eapply scoping_ok_ext; eauto.
+    - eapply valid_ok_ext; eauto.
+    - eapply edges_ok_ext; eauto.
+    - eapply zero_ok_ext; eauto.
+    - eapply nec_ok_ext; eauto.
+    - eapply par_ok_ext; eauto.
+    - eapply height_ok_ext; eauto.
+    - eapply count_ok_ext; eauto.
+    - eapply obs_ok_ext; eauto.
+    - eapply shape_ok_ext; eauto.
+  Qed.
+End struct.
+
+(** * Queuing a node: [setStale], [varSet] *)
+(** a node with a height is registered and its height is not negative *)
+Definition hreg_ok (s : state) : Prop :=
+  forall n, height (nd s n) <> unset -> inGraph (nd s n) = true /\ 0 <= height (nd s n).
+
+Lemma Inv_hreg s : zero_ok s -> height_ok s -> hreg_ok s.
+Proof.
+  intros Hz Hh n Hn. destruct (inGraph (nd s n)) eqn:E.
+  - split; [reflexivity|]. apply (Hh n E).
+  - destruct (Hz n E) as (_ & _ & _ & Hu). contradiction.
+Qed.
+
+Lemma hreg_ok_struct s s' : same_struct s s' -> hreg_ok s -> hreg_ok s'.
+Proof.
+  intros HS H n. destruct (ss_node s s' HS n) as (_&_&_&Sh&_&_&_&_&_&_&Sg). rewrite Sh, Sg. apply H.
+Qed.
+
+Lemma heap_ok_struct s s' : same_struct s s' -> heap s' = heap s -> heap_ok s -> heap_ok s'.
+Proof.
+  intros HS Hw. apply heap_ok_ext; [exact Hw| |]; intros n; apply (ss_node s s' HS n).
+Qed.
+
+(* queueing a registered node at its height *)
+Lemma heap_ok_heapAdd s n s' :
+  heap_ok s -> inHeap s n = false -> inGraph (nd s n) = true -> 0 <= height (nd s n) ->
+  heapAdd s n = Ok s' -> only_heap s s' /\ heap_ok s'.
+Proof.
+  intros [Hi Hq] Hm Hg Hh H.
+  destruct (heapAdd_spec s n s' Hi Hm Hh H) as (F & I' & P & Hin).
+  split; [exact F|]. split; [exact I'|].
+  intros m. rewrite (oh_nd s s' F), P, Hin, elem_of_cons.
+  destruct (decide (m = n)) as [->|Hne]; [auto|]. intros [?|Hm']; [contradiction|]. apply Hq, Hm'.
+Qed.
+
+Lemma heap_ok_heapAddIfNotPresent s n s' :
+  heap_ok s -> inGraph (nd s n) = true -> 0 <= height (nd s n) ->
+  heapAddIfNotPresent s n = Ok s' -> only_heap s s' /\ heap_ok s'.
+Proof.
+  intros Hk Hg Hh H. unfold heapAddIfNotPresent in H. destruct (inHeap s n) eqn:Hm.
+  - injection H as <-. split; [apply only_heap_refl|exact Hk].
+  - eapply heap_ok_heapAdd; eauto.
+Qed.
+
+(** what [setStale]/[varSet] may do to a node record: only [value], [pending], [setAt] move *)
+Definition var_rel (k : Z) (x' x : node) : Prop :=
+  struct_eq x' x /\ recomputedAt x' = recomputedAt x /\ changedAt x' = changedAt x /\
+  (setAt x' = setAt x \/ setAt x' = k).
+
+Lemma var_rel_refl k x : var_rel k x x.
+Proof. split; [apply struct_eq_refl|]. auto. Qed.
+
+Lemma var_rel_trans k x y z : var_rel k x y -> var_rel k y z -> var_rel k x z.
+Proof.
+  intros (S1 & ? & ? & H1) (S2 & ? & ? & H2). split; [eapply struct_eq_trans; eauto|].
+  split; [congruence|]. split; [congruence|]. destruct H1 as [-> | ->]; auto.
+Qed.
+
+Record var_step (s s' : state) : Prop := {
+  vs_struct : same_struct s s';
+  vs_nodes : forall m, var_rel (stabNum s) (nd s' m) (nd s m);
+  vs_stabNum : stabNum s' = stabNum s;
+  vs_status : status s' = status s;
+  vs_setRemoved : setRemoved s' = setRemoved s;
+  vs_handlers : handlers s' = handlers s;
+  vs_log : log s' = log s
+}.
+
+Lemma var_step_refl s : var_step s s.
+Proof. split; try reflexivity; [apply same_struct_refl|]. intros; apply var_rel_refl. Qed.
+
+Lemma var_step_trans s1 s2 s3 : var_step s1 s2 -> var_step s2 s3 -> var_step s1 s3.
+Proof.
+  intros [] []. split; try congruence.
+  - eapply same_struct_trans; eauto.
+  - intros m. eapply var_rel_trans; [|apply vs_nodes0]. rewrite <- vs_stabNum0. apply vs_nodes1.
+Qed.
+
+Lemma var_step_upd s n f :
+  (forall x, var_rel (stabNum s) (f x) x) -> var_step s (upd s n f).
+Proof.
+  intros Hf. split; try reflexivity.
+  - apply same_struct_upd. intros x. apply Hf.
+  - intros m. destruct (decide (has s n)) as [Hn|Hn].
+    + rewrite nd_upd by exact Hn. destruct (decide (m = n)) as [->|]; [apply Hf|apply var_rel_refl].
+    + rewrite upd_missing by exact Hn. apply var_rel_refl.
+Qed.
+
+Lemma var_step_only_heap s s' : only_heap s s' -> var_step s s'.
+Proof.
+  intros H. split.
+  - apply same_struct_only_heap, H.
+  - intros m. rewrite (oh_nd s s' H). apply var_rel_refl.
+  - apply (oh_stabNum s s' H).
+  - apply (oh_status s s' H).
+  - apply (oh_setRemoved s s' H).
+  - apply (oh_handlers s s' H).
+  - apply (oh_log s s' H).
+Qed.
+
+Lemma stamps_ok_var s s' : var_step s s' -> stamps_ok s -> stamps_ok s'.
+Proof.
+  intros V [H1 H2]. split; [rewrite (vs_stabNum s s' V); exact H1|].
+  intros m. destruct (vs_nodes s s' V m) as (_ & -> & -> & Hs). rewrite (vs_stabNum s s' V).
+  destruct (H2 m) as (? & ? & ?). destruct Hs as [-> | ->]; repeat split; lia.
+Qed.
+
+Lemma life_ok_var s s' : var_step s s' -> life_ok s -> life_ok s'.
+Proof.
+  intros V. apply life_ok_ext; [apply (vs_log s s' V)| |]; intros n; apply (ss_node s s' (vs_struct s s' V) n).
+Qed.
+
+Lemma setStale_spec s n s' :
+  hreg_ok s -> heap_ok s -> setStale s n = Ok s' ->
+  var_step s s' /\ heap_ok s' /\ setDuring s' = setDuring s.
+Proof.
+  intros Hr Hk H. apply setStale_inv in H as [[Hu ->]|[Hu H]].
+  - split; [apply var_step_refl|auto].
+  - destruct (Hr n Hu) as [Hg Hh].
+    set (s1 := upd s n (set setAt (fun _ => stabNum s))) in *. cbn zeta in H.
+    assert (V1 : var_step s s1).
+    { apply var_step_upd. intros x. split; [repeat split|]. cbn. auto. }
+    assert (Hk1 : heap_ok s1) by (apply (heap_ok_struct s s1 (vs_struct _ _ V1)); [reflexivity|exact Hk]).
+    destruct H as [[_ ->]|[Hm H]]; [auto|].
+    destruct (heap_ok_heapAdd s1 n s' Hk1) as [F Hk']; try assumption.
+    + unfold s1. rewrite nd_upd_proj by reflexivity. exact Hg.
+    + unfold s1. rewrite nd_upd_proj by reflexivity. exact Hh.
+    + split; [eapply var_step_trans; [exact V1|apply var_step_only_heap, F]|].
+      split; [exact Hk'|]. rewrite (oh_setDuring s1 s' F). reflexivity.
+Qed.
+
+Lemma varSet_spec s v x s' :
+  hreg_ok s -> heap_ok s -> varSet s v x = Ok s' ->
+  var_step s s' /\ heap_ok s' /\
+  (if status s =? 1 then True else setDuring s' = setDuring s).
+Proof.
+  intros Hr Hk H. unfold varSet in H.
+  destruct (_ && _ && _).
+  { injection H as <-. split; [apply var_step_refl|]. split; [exact Hk|]. destruct (status s =? 1); auto. }
+  destruct (status s =? 1) eqn:Est.
+  - injection H as <-. split; [|split; [|exact I]].
+    + split; try reflexivity.
+      * split; try reflexivity.
+        -- intros n. apply has_upd.
+        -- intros n. apply (ss_node _ _ (same_struct_upd s v (set pending (fun _ => Some x)) ltac:(intros; repeat split)) n).
+      * intros m. apply (vs_nodes _ _ (var_step_upd s v (set pending (fun _ => Some x)) ltac:(intros; split; [repeat split|cbn; auto])) m).
+    + apply (heap_ok_struct s); [|reflexivity|exact Hk].
+      split; try reflexivity; [intros n; apply has_upd|].
+      intros n. apply (ss_node _ _ (same_struct_upd s v (set pending (fun _ => Some x)) ltac:(intros; repeat split)) n).
+  - set (s1 := upd s v (set value (fun _ => x))) in *.
+    assert (V1 : var_step s s1) by (apply var_step_upd; intros; split; [repeat split|cbn; auto]).
+    assert (Hk1 : heap_ok s1) by (apply (heap_ok_struct s s1 (vs_struct _ _ V1)); [reflexivity|exact Hk]).
+    destruct (isNecessary (nd s1 v)).
+    + destruct (setStale_spec s1 v s') as (V2 & Hk2 & Hsd); try assumption.
+      * apply (hreg_ok_struct s s1 (vs_struct _ _ V1) Hr).
+      * split; [eapply var_step_trans; eauto|]. split; [exact Hk2|exact Hsd].
+    + injection H as <-. auto.
+Qed.
+
+Lemma varUpdate_spec s v d s' :
+  hreg_ok s -> heap_ok s -> varUpdate s v d = Ok s' ->
+  var_step s s' /\ heap_ok s' /\
+  (if status s =? 1 then True else setDuring s' = setDuring s).
+Proof. unfold varUpdate. apply varSet_spec. Qed.
+
+Definition is_setvar (o : op) : bool :=
+  match o with SetVar _ _ | UpdateVar _ _ => true | _ => false end.
+
+Lemma Inv_var_step s s' :
+  Inv s -> var_step s s' -> heap_ok s' -> setDuring s' = setDuring s -> Inv s'.
+Proof.
+  intros HI V Hk Hsd. apply (struct_Inv s s' (vs_struct s s' V) HI Hk).
+  - pose proof (vs_struct s s' V) as HS.
+    apply (quiet_ext s s'); try (apply HS); try (apply V); try assumption; try (apply HI);
+      try (intros n; apply (ss_node s s' HS n)).
+  - apply (stamps_ok_var s s' V), HI.
+  - apply (life_ok_var s s' V), HI.
+Qed.
+
+Theorem Inv_step_setvar s o s' e :
+  Inv s -> op_ok s o = true -> is_setvar o = true -> step s o = Ok (s', e) -> Inv s'.
+Proof.
+  intros HI Hok Hg Hstep.
+  assert (Hr : hreg_ok s) by (apply Inv_hreg; apply HI).
+  assert (Hst : (status s =? 1) = false) by (rewrite (q_status s (inv_quiet s HI)); reflexivity).
+  destruct o; try discriminate; simpl in Hstep; apply lift_inv in Hstep as [H _].
+  - destruct (varSet_spec s v x s' Hr (inv_heap s HI) H) as (V & Hk & Hsd). rewrite Hst in Hsd.
+    eapply Inv_var_step; eauto.
+  - destruct (varUpdate_spec s v d s' Hr (inv_heap s HI) H) as (V & Hk & Hsd). rewrite Hst in Hsd.
+    eapply Inv_var_step; eauto.
+Qed.
+
+(** * Teardown: [removeParents] / [checkIfUnnecessary] / [removeNode] *)
+
+(** ** What teardown never touches (no invariant needed) *)
+Definition is_unnec (e : event) : Prop := exists n, e = EvUnnec n.
+
+Record td_frame (s s' : state) : Prop := {
+  tf_next : next s' = next s;
+  tf_binds : binds s' = binds s;
+  tf_obs : obs s' = obs s;
+  tf_adj : adj s' = adj s;
+  tf_invq : invq s' = invq s;
+  tf_stabNum : stabNum s' = stabNum s;
+  tf_status : status s' = status s;
+  tf_maxHeight : maxHeight s' = maxHeight s;
+  tf_has : forall m, has s' m <-> has s m;
+  tf_static : forall m, nkind (nd s' m) = nkind (nd s m) /\ decl (nd s' m) = decl (nd s m) /\
+                        scope (nd s' m) = scope (nd s m) /\ forceNec (nd s' m) = forceNec (nd s m) /\
+                        value (nd s' m) = value (nd s m) /\ pending (nd s' m) = pending (nd s m);
+  tf_hadj : forall m, hAdj (nd s' m) = hAdj (nd s m) \/ hAdj (nd s' m) = unset;
+  tf_stamps : forall m,
+      (recomputedAt (nd s' m) = recomputedAt (nd s m) /\ changedAt (nd s' m) = changedAt (nd s m) /\
+       setAt (nd s' m) = setAt (nd s m)) \/
+      (recomputedAt (nd s' m) = 0 /\ changedAt (nd s' m) = 0 /\ setAt (nd s' m) = 0);
+  tf_log : exists l, log s' = l ++ log s /\ Forall is_unnec l;
+  tf_handlers : forall x, x ∈ handlers s' -> x ∈ handlers s;
+  tf_setDuring : forall x, x ∈ setDuring s' -> x ∈ setDuring s;
+  tf_setRemoved : setDuring s = [] -> setRemoved s' = setRemoved s
+}.
+
+Lemma td_frame_refl s : td_frame s s.
+Proof.
+  split; try reflexivity; auto; try (intros m; repeat split; fail).
+  exists []. split; [reflexivity|constructor].
+Qed.
+
+Lemma td_frame_trans s1 s2 s3 : td_frame s1 s2 -> td_frame s2 s3 -> td_frame s1 s3.
+Proof.
+  intros A B. split.
+  - rewrite (tf_next _ _ B). apply A.
+  - rewrite (tf_binds _ _ B). apply A.
+  - rewrite (tf_obs _ _ B). apply A.
+  - rewrite (tf_adj _ _ B). apply A.
+  - rewrite (tf_invq _ _ B). apply A.
+  - rewrite (tf_stabNum _ _ B). apply A.
+  - rewrite (tf_status _ _ B). apply A.
+  - rewrite (tf_maxHeight _ _ B). apply A.
+  - intros m. rewrite (tf_has _ _ B). apply A.
+  - intros m. destruct (tf_static _ _ A m) as (?&?&?&?&?&?), (tf_static _ _ B m) as (?&?&?&?&?&?).
+    repeat split; congruence.
+  - intros m. destruct (tf_hadj _ _ B m) as [->|]; [apply A|auto].
+  - intros m. destruct (tf_stamps _ _ B m) as [(-> & -> & ->)|?]; [apply A|auto].
+  - destruct (tf_log _ _ A) as (l1 & E1 & F1), (tf_log _ _ B) as (l2 & E2 & F2).
+    exists (l2 ++ l1). rewrite E2, E1, app_assoc. split; [reflexivity|]. apply Forall_app; auto.
+  - intros x Hx. apply A, B, Hx.
+  - intros x Hx. apply A, B, Hx.
+  - intros E. rewrite (tf_setRemoved _ _ B); [apply A, E|].
+    destruct (setDuring s2) as [|y l] eqn:E2; [reflexivity|].
+    assert (y ∈ setDuring s1) as Hy by (apply A; rewrite E2; left). rewrite E in Hy. inversion Hy.
+Qed.
+
+Lemma td_frame_unlink s c p : td_frame s (unlink s c p).
+Proof.
+  split; try reflexivity; auto;
+    try (intros m; autorewrite with eng; repeat split; fail);
+    try (intros m; left; autorewrite with eng; auto; fail).
+  - intros m. apply has_unlink.
+  - exists []. split; [reflexivity|constructor].
+Qed.
+
+Lemma td_frame_emit s n : td_frame s (emit (EvUnnec n) s).
+Proof.
+  split; try reflexivity; auto; try (intros m; repeat split; fail).
+  exists [EvUnnec n]. split; [reflexivity|]. constructor; [eexists; reflexivity|constructor].
+Qed.
+
+Lemma td_frame_removeNode s n s' : removeNode s n = Ok s' -> td_frame s s'.
+Proof.
+  intros H. split.
+  - apply (next_removeNode s n s' H).
+  - apply (binds_removeNode s n s' H).
+  - apply (obs_removeNode s n s' H).
+  - apply (adj_removeNode s n s' H).
+  - apply (invq_removeNode s n s' H).
+  - apply (stabNum_removeNode s n s' H).
+  - apply (status_removeNode s n s' H).
+  - apply (maxHeight_removeNode s n s' H).
+  - apply (has_removeNode s n s' H).
+  - intros m. rewrite (nkind_nd_removeNode s n s' H), (decl_nd_removeNode s n s' H),
+      (scope_nd_removeNode s n s' H), (forceNec_nd_removeNode s n s' H),
+      (value_nd_removeNode s n s' H), (pending_nd_removeNode s n s' H). repeat split.
+  - intros m. rewrite (hAdj_nd_removeNode s n s' H). destruct (decide (m = n)); auto.
+  - intros m. rewrite (recomputedAt_nd_removeNode s n s' H), (changedAt_nd_removeNode s n s' H),
+      (setAt_nd_removeNode s n s' H). destruct (decide (m = n)); auto.
+  - exists []. split; [apply (log_removeNode s n s' H)|constructor].
+  - intros x. rewrite (handlers_removeNode s n s' H), elem_of_rm. tauto.
+  - intros x. rewrite (setDuring_removeNode s n s' H), elem_of_rm. tauto.
+  - intros E. rewrite (setRemoved_removeNode s n s' H), E.
+    rewrite bool_decide_eq_false_2; [reflexivity|]. intros Hx; inversion Hx.
+Qed.
+
+Lemma rfold_td_frame {A} (f : state -> A -> res state) l s s' :
+  (forall a s s1, f s a = Ok s1 -> td_frame s s1) -> rfold f l s = Ok s' -> td_frame s s'.
+Proof.
+  intros Hf. revert s. induction l as [|a l IH]; intros s H; simpl in H.
+  - injection H as <-. apply td_frame_refl.
+  - apply rbind_ok in H as (s1 & E & H). eapply td_frame_trans; [eapply Hf, E|apply IH, H].
+Qed.
+
+Lemma checkIfUnnecessary_unfold fuel s p :
+  checkIfUnnecessary fuel s p =
+  if isNecessary (nd s p) then Ok s
+  else if negb (inGraph (nd s p)) then Ok s
+  else s1 <-! removeParents fuel (emit (EvUnnec p) s) p; removeNode s1 p.
+Proof. reflexivity. Qed.
+
+Lemma removeParents_S fuel s child :
+  removeParents (S fuel) s child =
+  rfold (fun s p => checkIfUnnecessary fuel (unlink s child p) p) (dedup_first [] (decl (nd s child))) s.
+Proof. reflexivity. Qed.
+
+Lemma teardown_frame fuel :
+  (forall s c s', removeParents fuel s c = Ok s' -> td_frame s s') /\
+  (forall s p s', checkIfUnnecessary fuel s p = Ok s' -> td_frame s s').
+Proof.
+  induction fuel as [|fuel [IH1 IH2]].
+  - split; [intros s c s' H; discriminate|].
+    intros s p s'. rewrite checkIfUnnecessary_unfold.
+    destruct (isNecessary (nd s p)); [intros [= <-]; apply td_frame_refl|].
+    destruct (negb (inGraph (nd s p))); [intros [= <-]; apply td_frame_refl|]. discriminate.
+  - assert (H1 : forall s c s', removeParents (S fuel) s c = Ok s' -> td_frame s s').
+    { intros s c s'. rewrite removeParents_S. apply rfold_td_frame.
+      intros a s0 s1 H. eapply td_frame_trans; [apply td_frame_unlink|]. eapply IH2, H. }
+    split; [exact H1|].
+    intros s p s'. rewrite checkIfUnnecessary_unfold.
+    destruct (isNecessary (nd s p)); [intros [= <-]; apply td_frame_refl|].
+    destruct (negb (inGraph (nd s p))); [intros [= <-]; apply td_frame_refl|].
+    intros H. apply rbind_ok in H as (s1 & E & H).
+    eapply td_frame_trans; [apply td_frame_emit|].
+    eapply td_frame_trans; [eapply H1, E|eapply td_frame_removeNode, H].
+Qed.
+
+(** ** The teardown invariant: [W] is the stack of nodes being torn down (registered, no longer
+       necessary, [EvUnnec] already logged); [E] exempts one node from "registered iff necessary" *)
+Record TInv (W : list nid) (E : nid -> Prop) (s : state) : Prop := {
+  t_edges : edges_ok s;
+  t_zero : zero_ok s;
+  t_nec : forall n, n ∉ W -> ~ E n -> inGraph (nd s n) = isNecessary (nd s n);
+  t_necE : forall n, E n -> isNecessary (nd s n) = true -> inGraph (nd s n) = true;
+  t_W : forall w, w ∈ W -> inGraph (nd s w) = true /\ isNecessary (nd s w) = false;
+  t_par : forall n, n ∉ W -> inGraph (nd s n) = true -> parents (nd s n) = decl (nd s n);
+  t_height : height_ok s;
+  t_heap : heap_ok s;
+  t_count : count_ok s;
+  t_obs : obs_ok s;
+  t_valid : forall n, inGraph (nd s n) = true -> valid (nd s n) = true;
+  t_log : log_ok (log s);
+  t_life : forall n, n ∉ W -> (inGraph (nd s n) = true <-> lastNU (log s) n = Some true);
+  t_lifeW : forall w, w ∈ W -> lastNU (log s) w = Some false;
+  t_nodup : NoDup W
+}.
+
+Definition noE : nid -> Prop := fun _ => False.
+
+Lemma edges_ok_unlink s c p : edges_ok s -> edges_ok (unlink s c p).
+Proof.
+  intros H m q. rewrite parents_nd_unlink, children_nd_unlink.
+  destruct (decide (m = c)) as [->|Hm], (decide (q = p)) as [->|Hq].
+  - rewrite !count_rm, !decide_True by reflexivity. reflexivity.
+  - rewrite count_rm, decide_False by exact Hq. apply H.
+  - rewrite count_rm, decide_False by exact Hm. apply H.
+  - apply H.
+Qed.
+
+(** [s1] is [s] with the edge [c -> p] removed on both endpoints; [decl c] may differ *)
+Record unlink_like (s s1 : state) (c p : nid) : Prop := {
+  ul_par : forall m, parents (nd s1 m) = if decide (m = c) then rm p (parents (nd s m)) else parents (nd s m);
+  ul_chi : forall m, children (nd s1 m) = if decide (m = p) then rm c (children (nd s m)) else children (nd s m);
+  ul_decl : forall m, m <> c -> decl (nd s1 m) = decl (nd s m);
+  ul_inGraph : forall m, inGraph (nd s1 m) = inGraph (nd s m);
+  ul_observers : forall m, observers (nd s1 m) = observers (nd s m);
+  ul_forceNec : forall m, forceNec (nd s1 m) = forceNec (nd s m);
+  ul_height : forall m, height (nd s1 m) = height (nd s m);
+  ul_valid : forall m, valid (nd s1 m) = valid (nd s m);
+  ul_scope : forall m, scope (nd s1 m) = scope (nd s m);
+  ul_has : forall m, has s1 m <-> has s m;
+  ul_maxHeight : maxHeight s1 = maxHeight s;
+  ul_heap : heap s1 = heap s;
+  ul_reg : reg s1 = reg s;
+  ul_obs : obs s1 = obs s;
+  ul_numNodes : numNodes s1 = numNodes s;
+  ul_next : next s1 = next s;
+  ul_log : log s1 = log s
+}.
+
+Lemma unlink_like_unlink s c p : unlink_like s (unlink s c p) c p.
+Proof.
+  split; intros; autorewrite with eng; try reflexivity.
+  - apply parents_nd_unlink.
+  - apply children_nd_unlink.
+  - apply has_unlink.
+Qed.
+
+Lemma TInv_unlink_like W s s1 c p :
+  TInv W noE s -> unlink_like s s1 c p ->
+  (forall n, n ∉ W -> inGraph (nd s n) = true -> parents (nd s1 n) = decl (nd s1 n)) ->
+  TInv W (eq p) s1.
+Proof.
+  intros T U Hpar.
+  pose proof (ul_inGraph _ _ _ _ U) as Hg. pose proof (ul_observers _ _ _ _ U) as Hob.
+  pose proof (ul_forceNec _ _ _ _ U) as Hf. pose proof (ul_height _ _ _ _ U) as Hh.
+  pose proof (ul_par _ _ _ _ U) as Hp. pose proof (ul_chi _ _ _ _ U) as Hc.
+  assert (Hnec : forall n, isNecessary (nd s1 n) = true -> isNecessary (nd s n) = true).
+  { intros n. rewrite !isNecessary_true, Hf, Hob, Hc.
+    destruct (decide (n = p)) as [->|]; [|tauto].
+    intros [?|[Hc'|?]]; auto. right; left. intros E. rewrite E in Hc'. apply Hc'. reflexivity. }
+  assert (Hnec' : forall n, n <> p -> isNecessary (nd s1 n) = isNecessary (nd s n)).
+  { intros n Hn. apply isNecessary_ext; auto. rewrite Hc, decide_False by exact Hn. reflexivity. }
+  constructor.
+  - intros m q. rewrite Hp, Hc.
+    destruct (decide (m = c)) as [->|Hm], (decide (q = p)) as [->|Hq].
+    + rewrite !count_rm, !decide_True by reflexivity. reflexivity.
+    + rewrite count_rm, decide_False by exact Hq. apply T.
+    + rewrite count_rm, decide_False by exact Hm. apply T.
+    + apply T.
+  - intros n. rewrite Hg, Hob, Hh. intros Hn. destruct (t_zero _ _ _ T n Hn) as (Hp' & Hch & Ho & Hu).
+    rewrite Hp, Hc, Hp', Hch.
+    repeat split; auto; destruct (decide _); reflexivity.
+  - intros n Hn Hne. rewrite Hg, Hnec' by (intros ->; apply Hne; reflexivity).
+    apply (t_nec _ _ _ T n Hn). intros [].
+  - intros n <- Hn. rewrite Hg. apply Hnec in Hn.
+    destruct (decide (p ∈ W)) as [Hw|Hw].
+    + destruct (t_W _ _ _ T p Hw) as [_ Hu]. congruence.
+    + rewrite (t_nec _ _ _ T p Hw); [exact Hn|intros []].
+  - intros w Hw. rewrite Hg. destruct (t_W _ _ _ T w Hw) as [Hi Hu]. split; [exact Hi|].
+    destruct (isNecessary (nd s1 w)) eqn:E; [|reflexivity]. apply Hnec in E. congruence.
+  - intros n Hn. rewrite Hg. apply Hpar, Hn.
+  - intros n. rewrite Hg, Hh, (ul_maxHeight _ _ _ _ U). intros Hn. destruct (t_height _ _ _ T n Hn) as (H1 & H2 & H3).
+    split; [exact H1|]. split.
+    + intros q. rewrite Hp, Hh.
+      destruct (decide (n = c)); [rewrite elem_of_rm; intros [Hq _]|intros Hq]; apply H2, Hq.
+    + rewrite (ul_scope _ _ _ _ U). unfold scopeHeight in *.
+      destruct (scope (nd s n)); [rewrite Hh|]; exact H3.
+  - apply (heap_ok_ext s s1); auto; [apply U|apply T].
+  - apply (count_ok_ext s s1); auto; try apply U. apply T.
+  - apply (obs_ok_ext s s1); auto; try apply U. apply T.
+  - intros n. rewrite Hg, (ul_valid _ _ _ _ U). apply T.
+  - rewrite (ul_log _ _ _ _ U). apply T.
+  - intros n Hn. rewrite Hg, (ul_log _ _ _ _ U). apply (t_life _ _ _ T n Hn).
+  - intros w Hw. rewrite (ul_log _ _ _ _ U). apply (t_lifeW _ _ _ T w Hw).
+  - apply T.
+Qed.
+
+Lemma TInv_unlink W s c p : TInv W noE s -> c ∈ W -> TInv W (eq p) (unlink s c p).
+Proof.
+  intros T Hc. apply (TInv_unlink_like W s _ c p T (unlink_like_unlink s c p)).
+  intros n Hn Hg. rewrite parents_nd_unlink, decl_nd_unlink.
+  rewrite decide_False by (intros ->; contradiction). apply (t_par _ _ _ T n Hn Hg).
+Qed.
+
+Lemma TInv_settle W s p : TInv W (eq p) s ->
+  (isNecessary (nd s p) = false -> inGraph (nd s p) = false) -> TInv W noE s.
+Proof.
+  intros T Hp. destruct T as [t_edges0 t_zero0 t_nec0 t_necE0 t_W0 t_par0 t_height0 t_heap0 t_count0 t_obs0 t_valid0 t_log0 t_life0 t_lifeW0 t_nodup0]. constructor; try assumption.
+  - intros n Hn _. destruct (decide (p = n)) as [<-|Hne]; [|apply t_nec0; auto].
+    destruct (isNecessary (nd s p)) eqn:E; [apply t_necE0; auto|apply Hp; reflexivity].
+  - intros n [].
+Qed.
+
+Lemma TInv_push W s p : TInv W (eq p) s -> p ∉ W ->
+  isNecessary (nd s p) = false -> inGraph (nd s p) = true ->
+  TInv (p :: W) noE (emit (EvUnnec p) s).
+Proof.
+  intros T Hw Hu Hg. destruct T as [t_edges0 t_zero0 t_nec0 t_necE0 t_W0 t_par0 t_height0 t_heap0 t_count0 t_obs0 t_valid0 t_log0 t_life0 t_lifeW0 t_nodup0].
+  assert (Hnd : forall n, nd (emit (EvUnnec p) s) n = nd s n) by reflexivity.
+  constructor;
+    first [exact t_edges0|exact t_zero0|exact t_height0|exact t_heap0
+          |apply (count_ok_ext s _); [reflexivity|reflexivity|reflexivity|reflexivity|exact t_count0]
+          |apply (obs_ok_ext s _); [reflexivity|reflexivity|reflexivity|reflexivity|reflexivity|exact t_obs0]
+          |exact t_valid0|idtac].
+  - intros n Hn _. rewrite Hnd. rewrite not_elem_of_cons in Hn. destruct Hn as [Hne Hn].
+    apply t_nec0; [exact Hn|congruence].
+  - intros n [].
+  - intros w. rewrite Hnd. intros [->|Hw']%elem_of_cons; [auto|apply t_W0, Hw'].
+  - intros n Hn. rewrite Hnd. rewrite not_elem_of_cons in Hn. destruct Hn as [_ Hn]. apply t_par0, Hn.
+  - cbn. split; [|exact t_log0]. cbn. apply (t_life0 p Hw), Hg.
+  - intros n Hn. rewrite Hnd. rewrite not_elem_of_cons in Hn. destruct Hn as [Hne Hn].
+    cbn. rewrite decide_False by congruence. apply t_life0, Hn.
+  - intros w. cbn. intros [->|Hw']%elem_of_cons.
+    + rewrite decide_True by reflexivity. reflexivity.
+    + rewrite decide_False by (intros ->; contradiction). apply t_lifeW0, Hw'.
+  - apply NoDup_cons_2; assumption.
+Qed.
+
+Lemma if_nil_same {A} (P : Prop) `{Decision P} (l : list A) : (P -> l = []) -> (if decide P then [] else l) = l.
+Proof. intros Hl. destruct (decide P); [symmetry; auto|reflexivity]. Qed.
+
+Lemma TInv_removeNode W s p s' :
+  TInv (p :: W) noE s -> parents (nd s p) = [] -> removeNode s p = Ok s' ->
+  TInv W noE s' /\ (forall m, m <> p -> parents (nd s' m) = parents (nd s m)) /\
+  (forall m, valid (nd s' m) = valid (nd s m)) /\
+  (forall m, inGraph (nd s' m) = true -> inGraph (nd s m) = true).
+Proof.
+  intros T Hpar H.
+  destruct (t_W _ _ _ T p ltac:(left)) as [Hgp Hup].
+  apply isNecessary_false in Hup as (Hfp & Hcp & Hop).
+  pose proof (t_nodup _ _ _ T) as Hnd. apply stdpp.list.NoDup_cons in Hnd as [HpW HndW].
+  assert (Hg : forall m, inGraph (nd s' m) = if decide (m = p) then false else inGraph (nd s m))
+    by apply (inGraph_nd_removeNode s p s' H).
+  assert (Hp : forall m, parents (nd s' m) = parents (nd s m)).
+  { intros m. rewrite (parents_nd_removeNode s p s' H). destruct (decide (m = p)) as [->|]; [symmetry|]; auto. }
+  assert (Hc : forall m, children (nd s' m) = children (nd s m)).
+  { intros m. rewrite (children_nd_removeNode s p s' H). destruct (decide (m = p)) as [->|]; [symmetry|]; auto. }
+  assert (Ho : forall m, observers (nd s' m) = observers (nd s m)).
+  { intros m. rewrite (observers_nd_removeNode s p s' H). destruct (decide (m = p)) as [->|]; [symmetry|]; auto. }
+  assert (Hf : forall m, forceNec (nd s' m) = forceNec (nd s m)) by apply (forceNec_nd_removeNode s p s' H).
+  assert (Hnec : forall m, isNecessary (nd s' m) = isNecessary (nd s m)) by (intros; apply isNecessary_ext; auto).
+  assert (Hv : forall m, valid (nd s' m) = valid (nd s m)).
+  { intros m. rewrite (valid_nd_removeNode s p s' H). destruct (decide (m = p)) as [->|]; [|reflexivity].
+    symmetry. apply (t_valid _ _ _ T), Hgp. }
+  assert (Hlog : log s' = log s) by apply (log_removeNode s p s' H).
+  split; [|split; [intros; apply Hp|split; [exact Hv|]]].
+  2:{ intros m. rewrite Hg. destruct (decide (m = p)); [discriminate|auto]. }
+  constructor.
+  - apply (edges_ok_ext s s'); auto. apply T.
+  - intros m. rewrite Hg, Hp, Hc, Ho, (height_nd_removeNode s p s' H).
+    destruct (decide (m = p)) as [->|]; [auto|]. apply T.
+  - intros n Hn _. rewrite Hg, Hnec. destruct (decide (n = p)) as [->|Hne].
+    + symmetry. apply isNecessary_false. auto.
+    + apply (t_nec _ _ _ T); [|intros []]. rewrite not_elem_of_cons. auto.
+  - intros n [].
+  - intros w Hw. rewrite Hg, Hnec. rewrite decide_False by (intros ->; contradiction).
+    apply (t_W _ _ _ T). right; exact Hw.
+  - intros n Hn. rewrite Hg, Hp, (decl_nd_removeNode s p s' H).
+    destruct (decide (n = p)) as [->|Hne]; [discriminate|].
+    apply (t_par _ _ _ T). rewrite not_elem_of_cons. auto.
+  - intros n. rewrite Hg, Hp, (maxHeight_removeNode s p s' H), (height_nd_removeNode s p s' H).
+    destruct (decide (n = p)) as [->|Hne]; [discriminate|]. intros Hn.
+    destruct (t_height _ _ _ T n Hn) as (H1 & H2 & H3). split; [exact H1|]. split.
+    + intros q Hq. rewrite (height_nd_removeNode s p s' H).
+      destruct (decide (q = p)) as [->|]; [|apply H2, Hq].
+      apply (edges_parent_child s n p (t_edges _ _ _ T)) in Hq. rewrite Hcp in Hq. inversion Hq.
+    + rewrite (scope_nd_removeNode s p s' H). unfold scopeHeight in *.
+      destruct (scope (nd s n)) as [b|]; [|exact H3]. rewrite (height_nd_removeNode s p s' H).
+      destruct (decide (b = p)); [unfold unset; lia|exact H3].
+  - (* heap *)
+    destruct (t_heap _ _ _ T) as [Hi Hq]. pose proof (heap_removeNode s p s' H) as Hw.
+    destruct (inHeap s p) eqn:Em.
+    + destruct Hw as (s1 & Hr & Hw).
+      destruct (heapRemove_spec s p s1 Hi Em Hr) as (F & I' & P & Hin).
+      split; [rewrite Hw; exact I'|]. intros m. rewrite Hw. intros Hm.
+      assert (Hm' : m ∈ Heap.ids (heap s) /\ m <> p).
+      { pose proof (inv_nodup _ (hinv_inv _ Hi)) as Hnd'. rewrite P in Hnd'.
+        apply stdpp.list.NoDup_cons in Hnd' as [Hnp _]. split; [rewrite P; right; exact Hm|].
+        intros ->. contradiction. }
+      destruct Hm' as [Hm1 Hm2]. rewrite Hg, (height_nd_removeNode s p s' H), Hin.
+      rewrite !decide_False by exact Hm2. apply Hq, Hm1.
+    + split; [rewrite Hw; exact Hi|]. intros m. rewrite Hw. intros Hm.
+      assert (Hm2 : m <> p).
+      { intros ->. apply (inHeap_iff s p Hi) in Hm. congruence. }
+      rewrite Hg, (height_nd_removeNode s p s' H). rewrite !decide_False by exact Hm2. apply Hq, Hm.
+  - (* count *)
+    destruct (t_count _ _ _ T) as [C1 C2 C3].
+    assert (Hreg : reg s' = rm p (reg s)).
+    { rewrite (reg_removeNode s p s' H), Hgp. reflexivity. }
+    split.
+    + rewrite Hreg. apply NoDup_rm, C1.
+    + intros m. rewrite Hreg, elem_of_rm, Hg, C2. destruct (decide (m = p)); [split; [tauto|discriminate]|tauto].
+    + rewrite (numNodes_removeNode s p s' H), (obs_removeNode s p s' H), Hreg, C3.
+      rewrite (rm_length_NoDup p (reg s) C1) by (apply C2, Hgp). lia.
+  - apply (obs_ok_ext s s'); auto.
+    + apply (obs_removeNode s p s' H).
+    + apply (next_removeNode s p s' H).
+    + apply (has_removeNode s p s' H).
+    + apply (scope_nd_removeNode s p s' H).
+    + apply T.
+  - intros n. rewrite Hg, Hv. destruct (decide (n = p)); [discriminate|apply T].
+  - rewrite Hlog. apply T.
+  - intros n Hn. rewrite Hg, Hlog. destruct (decide (n = p)) as [->|Hne].
+    + rewrite (t_lifeW _ _ _ T p ltac:(left)). split; discriminate.
+    + apply (t_life _ _ _ T). rewrite not_elem_of_cons. auto.
+  - intros w Hw. rewrite Hlog. apply (t_lifeW _ _ _ T). right; exact Hw.
+  - exact HndW.
+Qed.
+
+Record td_post (W : list nid) (s s' : state) : Prop := {
+  tp_inv : TInv W noE s';
+  tp_par : forall w, w ∈ W -> parents (nd s' w) = parents (nd s w);
+  tp_valid : forall m, valid (nd s' m) = valid (nd s m);
+  tp_mono : forall m, inGraph (nd s' m) = true -> inGraph (nd s m) = true
+}.
+
+Definition RP_spec (fuel : nat) : Prop :=
+  forall s c W s', TInv (c :: W) noE s ->
+    (forall q, q ∈ parents (nd s c) <-> q ∈ decl (nd s c)) ->
+    removeParents fuel s c = Ok s' ->
+    TInv (c :: W) noE s' /\ parents (nd s' c) = [] /\
+    (forall w, w ∈ W -> parents (nd s' w) = parents (nd s w)) /\
+    (forall m, valid (nd s' m) = valid (nd s m)) /\
+    (forall m, inGraph (nd s' m) = true -> inGraph (nd s m) = true).
+
+Definition CK_spec (fuel : nat) : Prop :=
+  forall s p W s', TInv W (eq p) s -> p ∉ W ->
+    checkIfUnnecessary fuel s p = Ok s' -> td_post W s s'.
+
+Lemma CK_from_RP fuel : RP_spec fuel -> CK_spec fuel.
+Proof.
+  intros RP s p W s' T Hw. rewrite checkIfUnnecessary_unfold.
+  destruct (isNecessary (nd s p)) eqn:En.
+  { intros [= <-]. split; auto. apply (TInv_settle W s p T). congruence. }
+  destruct (inGraph (nd s p)) eqn:Eg; simpl.
+  2:{ intros [= <-]. split; auto. apply (TInv_settle W s p T). auto. }
+  intros H. apply rbind_ok in H as (s3 & H3 & H4).
+  pose proof (TInv_push W s p T Hw En Eg) as T2.
+  set (s2 := emit (EvUnnec p) s) in *.
+  assert (Hpar : forall q, q ∈ parents (nd s2 p) <-> q ∈ decl (nd s2 p)).
+  { intros q. change (nd s2 p) with (nd s p). rewrite (t_par _ _ _ T p Hw Eg). reflexivity. }
+  destruct (RP s2 p W s3 T2 Hpar H3) as (T3 & Hp3 & Hf3 & Hv3 & Hm3).
+  destruct (TInv_removeNode W s3 p s' T3 Hp3 H4) as (T4 & Hf4 & Hv4 & Hm4).
+  split.
+  - exact T4.
+  - intros w Hw'. rewrite Hf4 by (intros ->; contradiction). rewrite (Hf3 w Hw'). reflexivity.
+  - intros m. rewrite Hv4, Hv3. reflexivity.
+  - intros m Hm. apply Hm4, Hm3 in Hm. exact Hm.
+Qed.
+
+Lemma RP_S fuel : CK_spec fuel -> RP_spec (S fuel).
+Proof.
+  intros CK s c W s' T Hpar. rewrite removeParents_S.
+  set (l := dedup_first [] (decl (nd s c))).
+  intros H.
+  pose (I := fun (rest : list nid) (st : state) =>
+    TInv (c :: W) noE st /\ NoDup rest /\
+    (forall q, q ∈ parents (nd st c) <-> q ∈ rest) /\
+    (forall w, w ∈ W -> parents (nd st w) = parents (nd s w)) /\
+    (forall m, valid (nd st m) = valid (nd s m)) /\
+    (forall m, inGraph (nd st m) = true -> inGraph (nd s m) = true)).
+  assert (HI : I [] s').
+  { eapply (rfold_inv I); [| |exact H].
+    - split; [exact T|]. split; [apply NoDup_dedup_first|].
+      split; [|auto]. intros q. rewrite Hpar. unfold l. rewrite elem_of_dedup_first_nil. reflexivity.
+    - clear H. intros p rest st s1 (Tst & Hnd & Hiff & Hfw & Hv & Hm) Hck.
+      apply stdpp.list.NoDup_cons in Hnd as [Hp_rest Hnd].
+      assert (Hp_par : p ∈ parents (nd st c)) by (apply Hiff; left).
+      assert (Hp_nec : isNecessary (nd st p) = true).
+      { apply isNecessary_true. right; left. intros E.
+        apply (edges_parent_child st c p (t_edges _ _ _ Tst)) in Hp_par. rewrite E in Hp_par. inversion Hp_par. }
+      assert (Hp_W : p ∉ c :: W).
+      { intros Hin. destruct (t_W _ _ _ Tst p Hin) as [_ Hu]. congruence. }
+      pose proof (t_nodup _ _ _ Tst) as HndW. apply stdpp.list.NoDup_cons in HndW as [Hc_W HndW].
+      pose proof (TInv_unlink (c :: W) st c p Tst ltac:(left)) as T1.
+      destruct (CK (unlink st c p) p (c :: W) s1 T1 Hp_W Hck) as [T2 Hf2 Hv2 Hm2].
+      split; [exact T2|]. split; [exact Hnd|]. split; [|split; [|split]].
+      + intros q. rewrite (Hf2 c ltac:(left)), parents_nd_unlink, decide_True by reflexivity.
+        rewrite elem_of_rm, Hiff, elem_of_cons. split.
+        * intros [[->|Hq] Hne]; [congruence|exact Hq].
+        * intros Hq. split; [auto|]. intros ->. contradiction.
+      + intros w Hw. rewrite (Hf2 w ltac:(right; exact Hw)), parents_nd_unlink.
+        rewrite decide_False by (intros ->; contradiction). apply Hfw, Hw.
+      + intros m. rewrite Hv2, valid_nd_unlink. apply Hv.
+      + intros m Hm'. apply Hm2 in Hm'. rewrite inGraph_nd_unlink in Hm'. apply Hm, Hm'. }
+  destruct HI as (T' & _ & Hiff & Hfw & Hv & Hm).
+  split; [exact T'|]. split; [|auto].
+  destruct (parents (nd s' c)) as [|q l'] eqn:E; [reflexivity|].
+  assert (q ∈ []) as Hq by (apply Hiff; left). inversion Hq.
+Qed.
+
+Lemma teardown_spec fuel : RP_spec fuel /\ CK_spec fuel.
+Proof.
+  induction fuel as [|fuel [IH1 IH2]].
+  - assert (RP_spec 0) as R by (intros s c W s' _ _ H; discriminate).
+    split; [exact R|apply CK_from_RP, R].
+  - pose proof (RP_S fuel IH2) as R. split; [exact R|apply CK_from_RP, R].
+Qed.
+
+Lemma checkIfUnnecessary_spec fuel s p W s' :
+  TInv W (eq p) s -> p ∉ W -> checkIfUnnecessary fuel s p = Ok s' -> td_post W s s' /\ td_frame s s'.
+Proof.
+  intros T Hw H. split.
+  - eapply (proj2 (teardown_spec fuel)); eauto.
+  - eapply (proj2 (teardown_frame fuel)); eauto.
+Qed.
+
+(** ** Assembling [Inv] from the teardown invariant and the clauses teardown does not touch *)
+Record Rest (s : state) : Prop := {
+  r_ids : ids_ok s;
+  r_binds : binds_wf s;
+  r_kinds : kinds_ok s;
+  r_scopes : scopes_ok s;
+  r_scoping : scoping_ok s;
+  r_vtop : forall n, scope (nd s n) = None -> valid (nd s n) = true;
+  r_vdead : forall n b, has s n -> scope (nd s n) = Some b -> ~ inGen s b n ->
+    valid (nd s n) = false /\ inGraph (nd s n) = false;
+  r_vgen : forall n b, inGen s b n -> valid (nd s n) = valid (nd s b);
+  r_quiet : quiet s;
+  r_shape : shape_ok s;
+  r_stamps : stamps_ok s;
+  r_inval : forall n, valid (nd s n) = false <-> EvInval n ∈ log s
+}.
+
+Lemma Inv_Rest s : Inv s -> Rest s.
+Proof.
+  intros HI. destruct HI as [inv_ids0 inv_binds0 inv_kinds0 inv_scopes0 inv_scoping0 inv_valid0 inv_edges0 inv_zero0 inv_nec0 inv_par0 inv_height0 inv_heap0 inv_count0 inv_obs0 inv_quiet0 inv_shape0 inv_stamps0 inv_life0]. destruct inv_valid0 as [vo_top0 vo_dead0 vo_gen0 vo_reg0], inv_life0 as [lf_log0 lf_reg0 lf_inval0].
+  constructor; assumption.
+Qed.
+
+Lemma Inv_TInv s : Inv s -> TInv [] noE s.
+Proof.
+  intros HI. destruct HI as [inv_ids0 inv_binds0 inv_kinds0 inv_scopes0 inv_scoping0 inv_valid0 inv_edges0 inv_zero0 inv_nec0 inv_par0 inv_height0 inv_heap0 inv_count0 inv_obs0 inv_quiet0 inv_shape0 inv_stamps0 inv_life0]. destruct inv_valid0 as [vo_top0 vo_dead0 vo_gen0 vo_reg0], inv_life0 as [lf_log0 lf_reg0 lf_inval0].
+  constructor; try assumption.
+  - intros n _ _. apply inv_nec0.
+  - intros n [].
+  - intros w Hw. inversion Hw.
+  - intros n _. apply inv_par0.
+  - intros n _. apply lf_reg0.
+  - intros w Hw. inversion Hw.
+  - constructor.
+Qed.
+
+Lemma TInv_Rest_Inv s : TInv [] noE s -> Rest s -> Inv s.
+Proof.
+  intros T R. destruct T as [t_edges0 t_zero0 t_nec0 t_necE0 t_W0 t_par0 t_height0 t_heap0 t_count0 t_obs0 t_valid0 t_log0 t_life0 t_lifeW0 t_nodup0], R as [r_ids0 r_binds0 r_kinds0 r_scopes0 r_scoping0 r_vtop0 r_vdead0 r_vgen0 r_quiet0 r_shape0 r_stamps0 r_inval0]. constructor; try assumption.
+  - constructor; assumption.
+  - intros n. apply t_nec0; [intros H; inversion H|intros []].
+  - intros n. apply t_par0. intros H; inversion H.
+  - constructor; try assumption. intros n. apply t_life0. intros H; inversion H.
+Qed.
+
+Lemma unnec_inval l n : Forall is_unnec l -> forall l', EvInval n ∈ l ++ l' <-> EvInval n ∈ l'.
+Proof.
+  intros Hl l'. rewrite elem_of_app. split; [|auto]. intros [H|H]; [|exact H].
+  rewrite stdpp.list.Forall_forall in Hl. destruct (Hl _ H) as [m Hm]. discriminate.
+Qed.
+
+Lemma Rest_td_frame s s' :
+  td_frame s s' -> (forall m, valid (nd s' m) = valid (nd s m)) ->
+  (forall m, inGraph (nd s' m) = true -> inGraph (nd s m) = true) ->
+  Rest s -> Rest s'.
+Proof.
+  intros F Hv Hm R. destruct R as [r_ids0 r_binds0 r_kinds0 r_scopes0 r_scoping0 r_vtop0 r_vdead0 r_vgen0 r_quiet0 r_shape0 r_stamps0 r_inval0].
+  assert (Hk : forall n, nkind (nd s' n) = nkind (nd s n)) by (intros n; apply (tf_static _ _ F n)).
+  assert (Hd : forall n, decl (nd s' n) = decl (nd s n)) by (intros n; apply (tf_static _ _ F n)).
+  assert (Hsc : forall n, scope (nd s' n) = scope (nd s n)) by (intros n; apply (tf_static _ _ F n)).
+  assert (Hf : forall n, forceNec (nd s' n) = forceNec (nd s n)) by (intros n; apply (tf_static _ _ F n)).
+  assert (Hbd : forall b, bd s' b = bd s b) by (intros b; unfold bd; rewrite (tf_binds _ _ F); reflexivity).
+  constructor.
+  - apply (ids_ok_ext s s'); auto; apply F.
+  - apply (binds_wf_ext s s'); auto; apply F.
+  - apply (kinds_ok_ext s s'); auto; apply F.
+  - apply (scopes_ok_ext s s'); auto; apply F.
+  - apply (scoping_ok_ext s s'); auto; apply F.
+  - intros n. rewrite Hsc, Hv. auto.
+  - intros n b. rewrite (tf_has _ _ F), Hsc, Hv. unfold inGen. rewrite Hbd. intros H1 H2 H3.
+    destruct (r_vdead0 n b H1 H2 H3) as [H4 H5]. split; [exact H4|].
+    destruct (inGraph (nd s' n)) eqn:E; [|reflexivity]. apply Hm in E. congruence.
+  - intros n b. unfold inGen. rewrite Hbd, !Hv. auto.
+  - destruct r_quiet0 as [q_anum0 q_invq0 q_status0 q_setDuring0 q_setRemoved0 q_handlers0 q_force0 q_hadj0 q_by0]. split.
+    + rewrite (tf_adj _ _ F). assumption.
+    + rewrite (tf_invq _ _ F). assumption.
+    + rewrite (tf_status _ _ F). assumption.
+    + destruct (setDuring s') as [|x l] eqn:E; [reflexivity|].
+      assert (x ∈ setDuring s) as Hx by (apply F; rewrite E; left). rewrite q_setDuring0 in Hx. inversion Hx.
+    + rewrite (tf_setRemoved _ _ F); assumption.
+    + destruct (handlers s') as [|x l] eqn:E; [reflexivity|].
+      assert (x ∈ handlers s) as Hx by (apply F; rewrite E; left). rewrite q_handlers0 in Hx. inversion Hx.
+    + intros n. rewrite Hf. auto.
+    + intros n. destruct (tf_hadj _ _ F n) as [-> | ->]; auto.
+    + rewrite (tf_adj _ _ F). assumption.
+  - eapply shape_ok_ext; [apply F|apply F|assumption].
+  - destruct r_stamps0 as [S1 S2]. split; rewrite (tf_stabNum _ _ F); [exact S1|].
+    intros n. destruct (tf_stamps _ _ F n) as [(-> & -> & ->)|(-> & -> & ->)]; [apply S2|lia].
+  - intros n. rewrite Hv. destruct (tf_log _ _ F) as (l & -> & Hl). rewrite (unnec_inval l n Hl). auto.
+Qed.
+
+(** ** Unobserve *)
+Definition is_unobserve (o : op) : bool := match o with Unobserve _ => true | _ => false end.
+
+Theorem Inv_step_unobserve s o s' e :
+  Inv s -> op_ok s o = true -> is_unobserve o = true -> step s o = Ok (s', e) -> Inv s'.
+Proof.
+  intros HI Hok Hg Hstep. destruct o as [| | | | | | | | | | | |o| | | | | | |]; try discriminate.
+  simpl in Hstep. apply lift_inv in Hstep as [H _]. unfold unobserve in H.
+  destruct (obs s !! o) as [n|] eqn:Eo; [|injection H as <-; exact HI].
+  set (s1 := s <| obs := delete o (obs s) |> <| numNodes := numNodes s - 1 |> <| handlers := rm o (handlers s) |>) in *.
+  set (s2 := upd s1 n (set observers (rm o))) in *.
+  pose proof (Inv_TInv s HI) as T. pose proof (Inv_Rest s HI) as R.
+  assert (Hn : has s n).
+  { apply (has_observers s n o). apply (ob_iff s (inv_obs s HI)), Eo. }
+  assert (Hnd : forall m, nd s2 m = if decide (m = n) then set observers (rm o) (nd s n) else nd s m).
+  { intros m. unfold s2. rewrite nd_upd by exact Hn. reflexivity. }
+  assert (Hfield : forall {A} (g : node -> A), (forall x f, g (set observers f x) = g x) ->
+                   forall m, g (nd s2 m) = g (nd s m)).
+  { intros A g Hg' m. rewrite Hnd. destruct (decide (m = n)) as [->|]; [apply Hg'|reflexivity]. }
+  assert (Hobs : forall m, observers (nd s2 m) = if decide (m = n) then rm o (observers (nd s n)) else observers (nd s m)).
+  { intros m. rewrite Hnd. destruct (decide (m = n)); reflexivity. }
+  assert (Hhas : forall m, has s2 m <-> has s m) by (intros m; apply (has_upd s1 n)).
+  (* the clauses teardown does not touch *)
+  assert (R2 : Rest s2).
+  { destruct R as [r_ids0 r_binds0 r_kinds0 r_scopes0 r_scoping0 r_vtop0 r_vdead0 r_vgen0 r_quiet0 r_shape0 r_stamps0 r_inval0]. constructor.
+    - apply (ids_ok_ext s s2); auto; try (apply Hfield; reflexivity).
+    - apply (binds_wf_ext s s2); auto; try (apply Hfield; reflexivity).
+    - apply (kinds_ok_ext s s2); auto; try (apply Hfield; reflexivity).
+    - apply (scopes_ok_ext s s2); auto; try (apply Hfield; reflexivity).
+    - apply (scoping_ok_ext s s2); auto; try (apply Hfield; reflexivity).
+    - intros m. rewrite (Hfield _ scope), (Hfield _ valid) by reflexivity. auto.
+    - intros m b. rewrite Hhas, (Hfield _ scope), (Hfield _ valid), (Hfield _ inGraph) by reflexivity. apply r_vdead0.
+    - intros m b. rewrite !(Hfield _ valid) by reflexivity. apply r_vgen0.
+    - destruct r_quiet0 as [q_anum0 q_invq0 q_status0 q_setDuring0 q_setRemoved0 q_handlers0 q_force0 q_hadj0 q_by0]. split; try assumption.
+      + cbn. rewrite q_handlers0. reflexivity.
+      + intros m. rewrite (Hfield _ forceNec) by reflexivity. auto.
+      + intros m. rewrite (Hfield _ hAdj) by reflexivity. auto.
+    - destruct r_shape0 as [? ?]. split; assumption.
+    - destruct r_stamps0 as [S1 S2]. split; [exact S1|]. intros m.
+      rewrite (Hfield _ recomputedAt), (Hfield _ changedAt), (Hfield _ setAt) by reflexivity. apply S2.
+    - intros m. rewrite (Hfield _ valid) by reflexivity. apply r_inval0. }
+  assert (T2 : TInv [] (eq n) s2).
+  { destruct T as [t_edges0 t_zero0 t_nec0 t_necE0 t_W0 t_par0 t_height0 t_heap0 t_count0 t_obs0 t_valid0 t_log0 t_life0 t_lifeW0 t_nodup0].
+    assert (Hnec_ne : forall m, m <> n -> isNecessary (nd s2 m) = isNecessary (nd s m)).
+    { intros m Hm. rewrite Hnd, decide_False by exact Hm. reflexivity. }
+    constructor.
+    - apply (edges_ok_ext s s2); [apply (Hfield _ parents)|apply (Hfield _ children)|assumption]; reflexivity.
+    - intros m. rewrite (Hfield _ inGraph), (Hfield _ parents), (Hfield _ children), (Hfield _ height) by reflexivity.
+      intros Hm. destruct (t_zero0 m Hm) as (? & ? & Ho & ?). repeat split; auto.
+      rewrite Hobs. destruct (decide (m = n)) as [->|]; [rewrite Ho; reflexivity|exact Ho].
+    - intros m _ Hne. rewrite (Hfield _ inGraph) by reflexivity. rewrite Hnec_ne by congruence.
+      apply t_nec0; [intros Hx; inversion Hx|intros []].
+    - intros m <- Hnec. rewrite (Hfield _ inGraph) by reflexivity.
+      rewrite (t_nec0 n); [|intros Hx; inversion Hx|intros []].
+      apply isNecessary_true. apply isNecessary_true in Hnec. rewrite Hnd, decide_True in Hnec by reflexivity.
+      cbn in Hnec. destruct Hnec as [?|[?|Ho]]; auto. right; right. intros E. rewrite E in Ho. apply Ho. reflexivity.
+    - intros w Hw. inversion Hw.
+    - intros m _. rewrite (Hfield _ inGraph), (Hfield _ parents), (Hfield _ decl) by reflexivity.
+      apply t_par0. intros Hx; inversion Hx.
+    - apply (height_ok_ext s s2); try assumption; try reflexivity;
+        [apply (Hfield _ inGraph)|apply (Hfield _ height)|apply (Hfield _ parents)|apply (Hfield _ scope)]; reflexivity.
+    - apply (heap_ok_ext s s2); try assumption; try reflexivity;
+        [apply (Hfield _ inGraph)|apply (Hfield _ height)]; reflexivity.
+    - destruct t_count0 as [C1 C2 C3]. split; [exact C1| |].
+      + intros m. rewrite (Hfield _ inGraph) by reflexivity. apply C2.
+      + cbn. rewrite C3, map_size_delete, Eo.
+        assert (0 < size (obs s))%nat; [|lia].
+        destruct (decide (size (obs s) = 0)%nat) as [E0|]; [|lia].
+        apply map_size_empty_inv in E0. rewrite E0, lookup_empty in Eo. discriminate.
+    - destruct t_obs0 as [O1 O2 O3]. split.
+      + intros m o'. rewrite Hobs. cbn. rewrite lookup_delete_Some.
+        destruct (decide (m = n)) as [->|Hne].
+        * rewrite elem_of_rm, O1. split; [intros [? ?]; split; [congruence|assumption]|intros [? ?]; split; [assumption|congruence]].
+        * rewrite O1. split; [|tauto]. intros Ho'. split; [|exact Ho']. intros <-. congruence.
+      + intros m. rewrite Hobs. destruct (decide (m = n)); [apply NoDup_rm|]; apply O2.
+      + intros o' m. cbn. rewrite lookup_delete_Some. intros [_ Ho'].
+        rewrite Hhas, (Hfield _ scope) by reflexivity. apply O3, Ho'.
+    - intros m. rewrite (Hfield _ inGraph), (Hfield _ valid) by reflexivity. apply t_valid0.
+    - exact t_log0.
+    - intros m _. rewrite (Hfield _ inGraph) by reflexivity. apply t_life0. intros Hx; inversion Hx.
+    - intros w Hw. inversion Hw.
+    - constructor. }
+  destruct (checkIfUnnecessary_spec _ s2 n [] s' T2 ltac:(intros Hx; inversion Hx) H) as [[T' _ Hv Hm] F].
+  apply TInv_Rest_Inv; [exact T'|]. eapply Rest_td_frame; eauto.
+Qed.
+
+(** ** [TInv] / [Rest] under steps that keep the structure *)
+Lemma TInv_struct W E s s' :
+  same_struct s s' -> log s' = log s -> heap_ok s' -> TInv W E s -> TInv W E s'.
+Proof.
+  intros HS Hlog Hk T.
+  destruct T as [t_edges0 t_zero0 t_nec0 t_necE0 t_W0 t_par0 t_height0 t_heap0 t_count0 t_obs0 t_valid0 t_log0 t_life0 t_lifeW0 t_nodup0].
+  destruct HS as [Snext Sbinds Shas Sreg Sobs Sadj Sinvq Snum Smh Snode].
+  assert (Hd : forall n, decl (nd s' n) = decl (nd s n)) by (intros n; apply Snode).
+  assert (Hsc : forall n, scope (nd s' n) = scope (nd s n)) by (intros n; apply Snode).
+  assert (Hh : forall n, height (nd s' n) = height (nd s n)) by (intros n; apply Snode).
+  assert (Hp : forall n, parents (nd s' n) = parents (nd s n)) by (intros n; apply Snode).
+  assert (Hc : forall n, children (nd s' n) = children (nd s n)) by (intros n; apply Snode).
+  assert (Ho : forall n, observers (nd s' n) = observers (nd s n)) by (intros n; apply Snode).
+  assert (Hv : forall n, valid (nd s' n) = valid (nd s n)) by (intros n; apply Snode).
+  assert (Hf : forall n, forceNec (nd s' n) = forceNec (nd s n)) by (intros n; apply Snode).
+  assert (Hg : forall n, inGraph (nd s' n) = inGraph (nd s n)) by (intros n; apply Snode).
+  assert (Hnec : forall n, isNecessary (nd s' n) = isNecessary (nd s n)) by (intros; apply isNecessary_ext; auto).
+  constructor; try assumption.
+  - apply (edges_ok_ext s s'); auto.
+  - apply (zero_ok_ext s s'); auto.
+  - intros n. rewrite Hg, Hnec. apply t_nec0.
+  - intros n. rewrite Hg, Hnec. apply t_necE0.
+  - intros n. rewrite Hg, Hnec. apply t_W0.
+  - intros n. rewrite Hg, Hp, Hd. apply t_par0.
+  - apply (height_ok_ext s s'); auto.
+  - apply (count_ok_ext s s'); auto.
+  - apply (obs_ok_ext s s'); auto.
+  - intros n. rewrite Hg, Hv. apply t_valid0.
+  - rewrite Hlog. exact t_log0.
+  - intros n. rewrite Hg, Hlog. apply t_life0.
+  - intros n. rewrite Hlog. apply t_lifeW0.
+Qed.
+
+Lemma Rest_var_step s s' : var_step s s' -> setDuring s' = setDuring s -> Rest s -> Rest s'.
+Proof.
+  intros V Hsd R.
+  destruct R as [r_ids0 r_binds0 r_kinds0 r_scopes0 r_scoping0 r_vtop0 r_vdead0 r_vgen0 r_quiet0 r_shape0 r_stamps0 r_inval0].
+  pose proof (vs_struct _ _ V) as HS.
+  destruct HS as [Snext Sbinds Shas Sreg Sobs Sadj Sinvq Snum Smh Snode].
+  assert (Hk : forall n, nkind (nd s' n) = nkind (nd s n)) by (intros n; apply Snode).
+  assert (Hd : forall n, decl (nd s' n) = decl (nd s n)) by (intros n; apply Snode).
+  assert (Hsc : forall n, scope (nd s' n) = scope (nd s n)) by (intros n; apply Snode).
+  assert (Hv : forall n, valid (nd s' n) = valid (nd s n)) by (intros n; apply Snode).
+  assert (Hg : forall n, inGraph (nd s' n) = inGraph (nd s n)) by (intros n; apply Snode).
+  assert (Hf : forall n, forceNec (nd s' n) = forceNec (nd s n)) by (intros n; apply Snode).
+  assert (Hhj : forall n, hAdj (nd s' n) = hAdj (nd s n)) by (intros n; apply Snode).
+  assert (Hbd : forall b, bd s' b = bd s b) by (intros b; unfold bd; rewrite Sbinds; reflexivity).
+  constructor.
+  - apply (ids_ok_ext s s'); auto.
+  - apply (binds_wf_ext s s'); auto.
+  - apply (kinds_ok_ext s s'); auto.
+  - apply (scopes_ok_ext s s'); auto.
+  - apply (scoping_ok_ext s s'); auto.
+  - intros n. rewrite Hsc, Hv. auto.
+  - intros n b. rewrite Shas, Hsc, Hv, Hg. unfold inGen. rewrite Hbd. apply r_vdead0.
+  - intros n b. unfold inGen. rewrite Hbd, !Hv. apply r_vgen0.
+  - apply (quiet_ext s s'); auto; apply V.
+  - apply (shape_ok_ext s s'); auto.
+  - apply (stamps_ok_var s s' V), r_stamps0.
+  - intros n. rewrite Hv, (vs_log _ _ V). auto.
+Qed.
+
+(** ** RemoveInput *)
+Definition is_removeinput (o : op) : bool := match o with RemoveInput _ _ => true | _ => false end.
+
+Lemma bind_wf_mono' s s' b r :
+  (forall n, has s n -> has s' n) ->
+  (forall n, has s n -> nkind (nd s' n) = nkind (nd s n)) ->
+  decl (nd s' b) = decl (nd s b) -> decl (nd s' (S b)) = decl (nd s (S b)) ->
+  (forall n, scope (nd s' n) = scope (nd s n)) ->
+  bind_wf s b r -> bind_wf s' b r.
+Proof.
+  intros Hh Hk Hd1 Hd2 Hs [? ? ? Hl Hm ? ? ? ? ? Hrn ? ? Hcases].
+  constructor; rewrite ?Hk, ?Hd1, ?Hd2, ?Hs by assumption; auto.
+  - intros n Hn. destruct (Hrn n Hn). rewrite Hs. auto.
+  - intros t d Hc. apply (chain_ext_iff s s' Hs) in Hc.
+    eapply List.Forall_impl; [|apply (Hcases t d Hc)].
+    intros e. apply texp_wf_ext; intros; [apply Hh; assumption|apply Hs|apply Hk; assumption].
+Qed.
+
+Theorem Inv_step_removeinput s o s' e :
+  Inv s -> op_ok s o = true -> is_removeinput o = true -> step s o = Ok (s', e) -> Inv s'.
+Proof.
+  intros HI Hok Hg Hstep. destruct o as [| | | | | | | | | | | | | | | |n a| | |]; try discriminate.
+  simpl in Hstep, Hok. apply lift_inv in Hstep as [H _]. unfold removeInput in H.
+  destruct (bool_decide (a ∈ decl (nd s n))) eqn:Ea; simpl in H; [|injection H as <-; exact HI].
+  apply andb_true_iff in Hok as [Hn _]. apply isMapN_true in Hn as [Hn [fn Hkn]].
+  apply rbind_ok in H as (s4 & H4 & H).
+  set (s3 := upd (upd (upd s n (set decl (rm a))) n (set parents (rm a))) a (set children (rm n))) in *.
+  pose proof (Inv_TInv s HI) as T. pose proof (Inv_Rest s HI) as R.
+  (* field equations of s3 *)
+  assert (Hfield : forall {A} (g : node -> A),
+             (forall x f, g (set decl f x) = g x) -> (forall x f, g (set parents f x) = g x) ->
+             (forall x f, g (set children f x) = g x) -> forall m, g (nd s3 m) = g (nd s m)).
+  { intros A g G1 G2 G3 m. unfold s3. rewrite !nd_upd_proj by (intros; auto). reflexivity. }
+  assert (Hdecl : forall m, decl (nd s3 m) = if decide (m = n) then rm a (decl (nd s n)) else decl (nd s m)).
+  { intros m. unfold s3. rewrite !nd_upd_proj by reflexivity. rewrite nd_upd by exact Hn.
+    destruct (decide (m = n)); reflexivity. }
+  assert (U : unlink_like s s3 n a).
+  { split; try reflexivity; try (apply Hfield; reflexivity).
+    - intros m. unfold s3. rewrite nd_upd_proj by reflexivity. rewrite upd_dummy_fix by reflexivity.
+      destruct (decide (m = n)) as [->|]; cbn; rewrite nd_upd_proj by reflexivity; reflexivity.
+    - intros m. unfold s3. rewrite upd_dummy_fix by reflexivity.
+      destruct (decide (m = a)) as [->|]; cbn; rewrite !nd_upd_proj by reflexivity; reflexivity.
+    - intros m Hm. rewrite Hdecl, decide_False by exact Hm. reflexivity.
+    - intros m. unfold s3. rewrite !has_upd. reflexivity. }
+  assert (T3 : TInv [] (eq a) s3).
+  { apply (TInv_unlink_like [] s s3 n a T U). intros m Hm Hgm.
+    rewrite (ul_par _ _ _ _ U), Hdecl. rewrite (t_par _ _ _ T m Hm Hgm).
+    destruct (decide (m = n)) as [->|]; reflexivity. }
+  assert (R3 : Rest s3).
+  { destruct R as [r_ids0 r_binds0 r_kinds0 r_scopes0 r_scoping0 r_vtop0 r_vdead0 r_vgen0 r_quiet0 r_shape0 r_stamps0 r_inval0].
+    assert (Hsub : forall m q, q ∈ decl (nd s3 m) -> q ∈ decl (nd s m)).
+    { intros m q. rewrite Hdecl. destruct (decide (m = n)) as [->|]; [rewrite elem_of_rm; tauto|auto]. }
+    assert (Hk : forall m, nkind (nd s3 m) = nkind (nd s m)) by (apply Hfield; reflexivity).
+    assert (Hsc : forall m, scope (nd s3 m) = scope (nd s m)) by (apply Hfield; reflexivity).
+    assert (Hv : forall m, valid (nd s3 m) = valid (nd s m)) by (apply Hfield; reflexivity).
+    assert (Hhas : forall m, has s3 m <-> has s m) by apply U.
+    constructor.
+    - destruct r_ids0 as [I1 I2]. split; [intros m Hm; apply I1, Hhas, Hm|].
+      intros m q Hq. apply Hhas. eapply I2, Hsub, Hq.
+    - intros b r Hr. apply (bind_wf_mono' s s3); auto; try (intros; apply Hhas; assumption).
+      + rewrite Hdecl. rewrite decide_False; [reflexivity|]. intros <-.
+        rewrite (bw_kind_lhs s b r (r_binds0 b r Hr)) in Hkn. discriminate.
+      + rewrite Hdecl. rewrite decide_False; [reflexivity|]. intros <-.
+        rewrite (bw_kind_main s b r (r_binds0 b r Hr)) in Hkn. discriminate.
+    - apply (kinds_ok_ext s s3); auto.
+    - apply (scopes_ok_ext s s3); auto.
+    - destruct r_scoping0 as [S1 S2 S3 S4]. split.
+      + intros m q Hq. rewrite !Hsc, Hk. apply S1, Hsub, Hq.
+      + intros m q b Hq. rewrite !Hsc. apply S2, Hsub, Hq.
+      + intros b q. rewrite Hsc. apply S3.
+      + intros m q Hq. apply (mu_lt_ext s s3 Hsc). apply S4, Hsub, Hq.
+    - intros m. rewrite Hsc, Hv. auto.
+    - intros m b. rewrite Hhas, Hsc, Hv, (Hfield _ inGraph) by reflexivity. apply r_vdead0.
+    - intros m b. rewrite !Hv. apply r_vgen0.
+    - apply (quiet_ext s s3); auto; apply Hfield; reflexivity.
+    - apply (shape_ok_ext s s3); auto.
+    - apply (stamps_ok_ext s s3); auto; apply Hfield; reflexivity.
+    - intros m. rewrite Hv. apply r_inval0. }
+  (* setStale *)
+  destruct (setStale_spec s3 n s4) as (V & Hk4 & Hsd); try assumption.
+  { apply Inv_hreg; apply T3. }
+  { apply T3. }
+  assert (T4 : TInv [] (eq a) s4) by (apply (TInv_struct _ _ s3 s4); [apply V|apply V|exact Hk4|exact T3]).
+  assert (R4 : Rest s4) by (apply (Rest_var_step s3 s4 V Hsd R3)).
+  destruct (checkIfUnnecessary_spec _ s4 a [] s' T4 ltac:(intros Hx; inversion Hx) H) as [[T' _ Hv Hm] F].
+  apply TInv_Rest_Inv; [exact T'|]. eapply Rest_td_frame; eauto.
+Qed.
+
+(** * Becoming necessary: [becameNecessaryRecursive] *)
+Definition bn_body (fuel : nat) (n : nid) (s : state) (p : nid) : M :=
+  let wasNec := isNecessary (nd s p) in
+  let s := link s n p in
+  let s := if valid (nd s p) then s else s <| invq := invq s ++ [n] |> in
+  s <-? (if wasNec then ok s else becameNecessaryRecursive fuel s p);
+  if height (nd s p) >=? height (nd s n)
+  then setHeight s n (height (nd s p) + 1) else ok s.
+
+Lemma BN_S fuel s n :
+  becameNecessaryRecursive (S fuel) s n =
+  (let was := inGraph (nd s n) in
+   let s := addNode s n in
+   let s := if was then s else emit (EvNec n) s in
+   s <-? setHeight s n (scopeHeight s (scope (nd s n)) + 1);
+   s <-? efold (bn_body fuel n) (decl (nd s n)) s;
+   if isStale s n then lift (heapAddIfNotPresent s n) else ok s).
+Proof. reflexivity. Qed.
+
+(** ** declared-input reachability *)
+Inductive dreach (s : state) (n : nid) : nid -> Prop :=
+| dr_refl : dreach s n n
+| dr_step m q : dreach s n m -> q ∈ decl (nd s m) -> dreach s n q.
+
+Lemma dreach_trans s a b c : dreach s a b -> dreach s b c -> dreach s a c.
+Proof. intros H1 H2. induction H2; [exact H1|]. eapply dr_step; eauto. Qed.
+
+Lemma dreach_decl s n p m : p ∈ decl (nd s n) -> dreach s p m -> dreach s n m.
+Proof. intros Hp H. eapply dreach_trans; [|exact H]. eapply dr_step; [apply dr_refl|exact Hp]. Qed.
+
+Lemma dreach_ext s s' : (forall m, decl (nd s' m) = decl (nd s m)) -> forall n m, dreach s n m -> dreach s' n m.
+Proof.
+  intros Hd n m H. induction H; [apply dr_refl|]. eapply dr_step; [eassumption|]. rewrite Hd. assumption.
+Qed.
+
+(** ** what becoming necessary never touches *)
+Definition is_nec (e : event) : Prop := exists n, e = EvNec n.
+
+Record bn_frame (s s' : state) : Prop := {
+  bf_next : next s' = next s;
+  bf_binds : binds s' = binds s;
+  bf_obs : obs s' = obs s;
+  bf_stabNum : stabNum s' = stabNum s;
+  bf_status : status s' = status s;
+  bf_maxHeight : maxHeight s' = maxHeight s;
+  bf_setDuring : setDuring s' = setDuring s;
+  bf_setRemoved : setRemoved s' = setRemoved s;
+  bf_handlers : handlers s' = handlers s;
+  bf_byHeight : a_byHeight (adj s') = a_byHeight (adj s);
+  bf_anum : a_num (adj s') = a_num (adj s);
+  bf_alower : a_lower (adj s') = a_lower (adj s);
+  bf_has : forall m, has s' m <-> has s m;
+  bf_static : forall m,
+    nkind (nd s' m) = nkind (nd s m) /\ decl (nd s' m) = decl (nd s m) /\ scope (nd s' m) = scope (nd s m) /\
+    valid (nd s' m) = valid (nd s m) /\ forceNec (nd s' m) = forceNec (nd s m) /\
+    observers (nd s' m) = observers (nd s m) /\ hAdj (nd s' m) = hAdj (nd s m) /\
+    recomputedAt (nd s' m) = recomputedAt (nd s m) /\ changedAt (nd s' m) = changedAt (nd s m) /\
+    setAt (nd s' m) = setAt (nd s m) /\ value (nd s' m) = value (nd s m) /\ pending (nd s' m) = pending (nd s m);
+  bf_log : exists l, log s' = l ++ log s /\ Forall is_nec l;
+  bf_mono : forall m, inGraph (nd s m) = true -> inGraph (nd s' m) = true
+}.
+
+Lemma bn_frame_refl s : bn_frame s s.
+Proof.
+  split; try reflexivity; auto; try (intros m; repeat split; fail).
+  exists []. split; [reflexivity|constructor].
+Qed.
+
+Lemma bn_frame_trans s1 s2 s3 : bn_frame s1 s2 -> bn_frame s2 s3 -> bn_frame s1 s3.
+Proof.
+  intros A B. split.
+  - rewrite (bf_next _ _ B). apply A.
+  - rewrite (bf_binds _ _ B). apply A.
+  - rewrite (bf_obs _ _ B). apply A.
+  - rewrite (bf_stabNum _ _ B). apply A.
+  - rewrite (bf_status _ _ B). apply A.
+  - rewrite (bf_maxHeight _ _ B). apply A.
+  - rewrite (bf_setDuring _ _ B). apply A.
+  - rewrite (bf_setRemoved _ _ B). apply A.
+  - rewrite (bf_handlers _ _ B). apply A.
+  - rewrite (bf_byHeight _ _ B). apply A.
+  - rewrite (bf_anum _ _ B). apply A.
+  - rewrite (bf_alower _ _ B). apply A.
+  - intros m. rewrite (bf_has _ _ B). apply A.
+  - intros m. destruct (bf_static _ _ A m) as (?&?&?&?&?&?&?&?&?&?&?&?),
+                       (bf_static _ _ B m) as (?&?&?&?&?&?&?&?&?&?&?&?).
+    repeat split; congruence.
+  - destruct (bf_log _ _ A) as (l1 & E1 & F1), (bf_log _ _ B) as (l2 & E2 & F2).
+    exists (l2 ++ l1). rewrite E2, E1, app_assoc. split; [reflexivity|]. apply Forall_app; auto.
+  - intros m Hm. apply B, A, Hm.
+Qed.
+
+Lemma bn_frame_addNode s n : bn_frame s (addNode s n).
+Proof.
+  split; intros; autorewrite with eng; try reflexivity.
+  - apply has_addNode.
+  - repeat split.
+  - exists []. split; [reflexivity|constructor].
+  - apply inGraph_nd_addNode_mono. assumption.
+Qed.
+
+Lemma bn_frame_emit s n : bn_frame s (emit (EvNec n) s).
+Proof.
+  split; try reflexivity; auto; try (intros m; repeat split; fail).
+  exists [EvNec n]. split; [reflexivity|]. constructor; [eexists; reflexivity|constructor].
+Qed.
+
+Lemma bn_frame_link s c p : bn_frame s (link s c p).
+Proof.
+  split; intros; autorewrite with eng; try reflexivity.
+  - apply has_link.
+  - repeat split.
+  - exists []. split; [reflexivity|constructor].
+  - assumption.
+Qed.
+
+Lemma bn_frame_invq s l : bn_frame s (s <| invq := l |>).
+Proof.
+  split; try reflexivity; auto; try (intros m; repeat split; fail).
+  exists []. split; [reflexivity|constructor].
+Qed.
+
+Lemma bn_frame_setHeight s n h s' e : setHeight s n h = Ok (s', e) -> bn_frame s s'.
+Proof.
+  intros H. destruct e as [x|].
+  - apply setHeight_err in H as [_ ->]. apply bn_frame_refl.
+  - split.
+    + apply (next_setHeight _ _ _ _ H). + apply (binds_setHeight _ _ _ _ H).
+    + apply (obs_setHeight _ _ _ _ H). + apply (stabNum_setHeight _ _ _ _ H).
+    + apply (status_setHeight _ _ _ _ H). + apply (maxHeight_setHeight _ _ _ _ H).
+    + apply (setDuring_setHeight _ _ _ _ H). + apply (setRemoved_setHeight _ _ _ _ H).
+    + apply (handlers_setHeight _ _ _ _ H). + apply (a_byHeight_setHeight _ _ _ _ H).
+    + apply (a_num_setHeight _ _ _ _ H). + apply (a_lower_setHeight _ _ _ _ H).
+    + apply (has_setHeight _ _ _ _ H).
+    + intros m. repeat split; apply (proj_nd_setHeight _ _ _ _ H); reflexivity.
+    + exists []. split; [apply (log_setHeight _ _ _ _ H)|constructor].
+    + intros m. rewrite (proj_nd_setHeight _ _ _ _ H inGraph) by reflexivity. auto.
+Qed.
+
+Lemma bn_frame_only_heap s s' : only_heap s s' -> bn_frame s s'.
+Proof.
+  intros F. split.
+  - apply (oh_next _ _ F). - apply (oh_binds _ _ F). - apply (oh_obs _ _ F).
+  - apply (oh_stabNum _ _ F). - apply (oh_status _ _ F). - apply (oh_maxHeight _ _ F).
+  - apply (oh_setDuring _ _ F). - apply (oh_setRemoved _ _ F). - apply (oh_handlers _ _ F).
+  - rewrite (oh_adj _ _ F). reflexivity. - rewrite (oh_adj _ _ F). reflexivity.
+  - rewrite (oh_adj _ _ F). reflexivity.
+  - apply (oh_has _ _ F).
+  - intros m. rewrite (oh_nd _ _ F). repeat split.
+  - exists []. split; [apply (oh_log _ _ F)|constructor].
+  - intros m. rewrite (oh_nd _ _ F). auto.
+Qed.
+
+Lemma only_heap_heapAddIfNotPresent s n s' : heapAddIfNotPresent s n = Ok s' -> only_heap s s'.
+Proof.
+  unfold heapAddIfNotPresent. destruct (inHeap s n); [intros [= <-]; apply only_heap_refl|].
+  intros H. apply heapAdd_inv in H as (w & _ & ->). apply only_heap_set.
+Qed.
+
+Definition BN_frame_spec (fuel : nat) : Prop :=
+  forall s n s' e, becameNecessaryRecursive fuel s n = Ok (s', e) ->
+    bn_frame s s' /\ (forall m, ~ dreach s n m -> nd s' m = nd s m).
+
+Lemma bn_body_frame fuel n : BN_frame_spec fuel ->
+  forall s p s' e, bn_body fuel n s p = Ok (s', e) ->
+    bn_frame s s' /\ (forall m, m <> n -> ~ dreach s p m -> nd s' m = nd s m).
+Proof.
+  intros IH s p s' e H. unfold bn_body in H.
+  set (s1 := link s n p) in *.
+  set (s2 := if valid (nd s1 p) then s1 else s1 <| invq := invq s1 ++ [n] |>) in *.
+  assert (F2 : bn_frame s s2).
+  { eapply bn_frame_trans; [apply bn_frame_link|]. unfold s2.
+    destruct (valid (nd s1 p)); [apply bn_frame_refl|apply bn_frame_invq]. }
+  assert (N2 : forall m, m <> n -> m <> p -> nd s2 m = nd s m).
+  { intros m H1 H2. unfold s2. destruct (valid (nd s1 p)); apply nd_link_ne; assumption. }
+  apply ebind_inv in H as (s3 & e3 & H3 & Hrest).
+  assert (F3 : bn_frame s2 s3 /\ forall m, ~ dreach s2 p m -> nd s3 m = nd s2 m).
+  { destruct (isNecessary (nd s p)).
+    - apply ok_inv in H3 as [-> _]. split; [apply bn_frame_refl|auto].
+    - apply IH in H3. exact H3. }
+  destruct F3 as [F3 N3].
+  assert (Hd2 : forall m, decl (nd s2 m) = decl (nd s m)) by (intros m; apply (bf_static _ _ F2 m)).
+  assert (N3' : forall m, m <> n -> ~ dreach s p m -> nd s3 m = nd s m).
+  { intros m Hn Hr. rewrite N3.
+    - apply N2; [exact Hn|]. intros ->. apply Hr, dr_refl.
+    - intros Hr'. apply Hr. apply (dreach_ext s2 s); [intros; symmetry; apply Hd2|exact Hr']. }
+  destruct Hrest as [[-> H4]|(Hne & -> & ->)].
+  - destruct (height (nd s3 p) >=? height (nd s3 n)).
+    + pose proof (bn_frame_setHeight _ _ _ _ _ H4) as F4.
+      split; [eapply bn_frame_trans; [exact F2|eapply bn_frame_trans; [exact F3|exact F4]]|].
+      intros m Hn Hr. destruct e as [x|].
+      * apply setHeight_err in H4 as [_ ->]. apply N3'; assumption.
+      * rewrite (nd_setHeight_ne _ _ _ _ m H4 Hn). apply N3'; assumption.
+    + apply ok_inv in H4 as [-> ->].
+      split; [eapply bn_frame_trans; [exact F2|exact F3]|exact N3'].
+  - split; [eapply bn_frame_trans; [exact F2|exact F3]|exact N3'].
+Qed.
+
+Lemma bn_loop_frame fuel n : BN_frame_spec fuel ->
+  forall l s s' e, efold (bn_body fuel n) l s = Ok (s', e) ->
+    bn_frame s s' /\ (forall m, m <> n -> (forall p, p ∈ l -> ~ dreach s p m) -> nd s' m = nd s m).
+Proof.
+  intros IH l. induction l as [|p l IHl]; intros s s' e H; simpl in H.
+  - apply ok_inv in H as [-> ->]. split; [apply bn_frame_refl|auto].
+  - apply ebind_inv in H as (s1 & e1 & H1 & Hrest).
+    destruct (bn_body_frame fuel n IH s p s1 e1 H1) as [F1 N1].
+    destruct Hrest as [[-> H2]|(Hne & -> & ->)].
+    + destruct (IHl s1 s' e H2) as [F2 N2].
+      split; [eapply bn_frame_trans; eauto|].
+      intros m Hn Hr. rewrite N2; [apply N1; [exact Hn|apply Hr; left]|exact Hn|].
+      intros q Hq Hr'. apply (Hr q ltac:(right; exact Hq)).
+      apply (dreach_ext s1 s); [|exact Hr']. intros x. symmetry. apply (bf_static _ _ F1 x).
+    + split; [exact F1|]. intros m Hn Hr. apply N1; [exact Hn|apply Hr; left].
+Qed.
+
+Lemma BN_frame fuel : BN_frame_spec fuel.
+Proof.
+  induction fuel as [|fuel IH]; intros s n s' e H; [discriminate|].
+  rewrite BN_S in H. cbn zeta in H.
+  set (s1 := addNode s n) in *.
+  set (s2 := if inGraph (nd s n) then s1 else emit (EvNec n) s1) in *.
+  assert (F2 : bn_frame s s2).
+  { eapply bn_frame_trans; [apply bn_frame_addNode|]. unfold s2.
+    destruct (inGraph (nd s n)); [apply bn_frame_refl|apply bn_frame_emit]. }
+  assert (N2 : forall m, m <> n -> nd s2 m = nd s m).
+  { intros m Hm. unfold s2. destruct (inGraph (nd s n)); apply nd_addNode_ne, Hm. }
+  apply ebind_inv in H as (s3 & e3 & H3 & Hrest).
+  pose proof (bn_frame_setHeight _ _ _ _ _ H3) as F3.
+  assert (N3 : forall m, m <> n -> nd s3 m = nd s m).
+  { intros m Hm. destruct e3 as [x|].
+    - apply setHeight_err in H3 as [_ ->]. apply N2, Hm.
+    - rewrite (nd_setHeight_ne _ _ _ _ m H3 Hm). apply N2, Hm. }
+  assert (F03 : bn_frame s s3) by (eapply bn_frame_trans; eauto).
+  assert (Hd3 : forall m, decl (nd s3 m) = decl (nd s m)) by (intros m; apply (bf_static _ _ F03 m)).
+  destruct Hrest as [[-> H4]|(Hne & -> & ->)].
+  2:{ split; [exact F03|]. intros m Hr. apply N3. intros ->. apply Hr, dr_refl. }
+  apply ebind_inv in H4 as (s4 & e4 & H4 & Hrest).
+  destruct (bn_loop_frame fuel n IH _ _ _ _ H4) as [F4 N4].
+  assert (F04 : bn_frame s s4) by (eapply bn_frame_trans; eauto).
+  assert (N04 : forall m, ~ dreach s n m -> nd s4 m = nd s m).
+  { intros m Hr. assert (Hn : m <> n) by (intros ->; apply Hr, dr_refl).
+    rewrite N4; [apply N3, Hn|exact Hn|]. intros p Hp Hr'. apply Hr.
+    rewrite Hd3 in Hp. apply (dreach_decl s n p m Hp).
+    apply (dreach_ext s3 s); [intros x; symmetry; apply Hd3|exact Hr']. }
+  destruct Hrest as [[-> H5]|(Hne & -> & ->)]; [|auto].
+  destruct (isStale s4 n).
+  - apply lift_inv in H5 as [H5 ->]. apply only_heap_heapAddIfNotPresent in H5.
+    split; [eapply bn_frame_trans; [exact F04|apply bn_frame_only_heap, H5]|].
+    intros m Hr. rewrite (oh_nd _ _ H5). apply N04, Hr.
+  - apply ok_inv in H5 as [-> ->]. auto.
+Qed.
+
+(** ** The invariant while nodes become necessary.  [X]: the open nodes (being set up by a caller
+       further up: their own clauses are the caller's business) *)
+Definition good_h (s : state) (m : nid) : Prop :=
+  0 <= height (nd s m) < maxHeight s /\
+  (forall p, p ∈ parents (nd s m) -> height (nd s p) < height (nd s m)) /\
+  scopeHeight s (scope (nd s m)) < height (nd s m).
+
+Record BInv (X : list nid) (s : state) : Prop := {
+  b_edges : edges_ok s;
+  b_zero1 : forall m, inGraph (nd s m) = false -> parents (nd s m) = [] /\ height (nd s m) = unset;
+  b_zero2 : forall m, m ∉ X -> inGraph (nd s m) = false -> children (nd s m) = [] /\ observers (nd s m) = [];
+  b_nec : forall m, m ∉ X -> inGraph (nd s m) = isNecessary (nd s m);
+  b_par : forall m, m ∉ X -> inGraph (nd s m) = true -> parents (nd s m) = decl (nd s m);
+  b_height : forall m, m ∉ X -> inGraph (nd s m) = true -> good_h s m;
+  b_heap : heap_ok s;
+  b_count : count_ok s;
+  b_obs : obs_ok s;
+  b_valid : forall m, inGraph (nd s m) = true -> valid (nd s m) = true;
+  b_sreg : forall m b, inGraph (nd s m) = true -> scope (nd s m) = Some b -> inGraph (nd s b) = true;
+  b_log : log_ok (log s);
+  b_life : forall m, inGraph (nd s m) = true <-> lastNU (log s) m = Some true
+}.
+
+(** static facts, never changed while nodes become necessary *)
+Record Sta (s : state) : Prop := {
+  sta_ids : ids_ok s;
+  sta_binds : binds_wf s;
+  sta_kinds : kinds_ok s;
+  sta_scopes : scopes_ok s;
+  sta_scoping : scoping_ok s;
+  sta_vc : forall m q, valid (nd s m) = true -> q ∈ decl (nd s m) -> valid (nd s q) = true
+}.
+
+Lemma Sta_bn_frame s s' : bn_frame s s' -> Sta s -> Sta s'.
+Proof.
+  intros F [H1 H2 H3 H4 H5 H6].
+  assert (Hk : forall n, nkind (nd s' n) = nkind (nd s n)) by (intros n; apply (bf_static _ _ F n)).
+  assert (Hd : forall n, decl (nd s' n) = decl (nd s n)) by (intros n; apply (bf_static _ _ F n)).
+  assert (Hsc : forall n, scope (nd s' n) = scope (nd s n)) by (intros n; apply (bf_static _ _ F n)).
+  assert (Hv : forall n, valid (nd s' n) = valid (nd s n)) by (intros n; apply (bf_static _ _ F n)).
+  split.
+  - apply (ids_ok_ext s s'); auto; apply F.
+  - apply (binds_wf_ext s s'); auto; apply F.
+  - apply (kinds_ok_ext s s'); auto; apply F.
+  - apply (scopes_ok_ext s s'); auto; apply F.
+  - apply (scoping_ok_ext s s'); auto; apply F.
+  - intros m q. rewrite !Hv, Hd. apply H6.
+Qed.
+
+(** acyclicity of declarations, from the key order *)
+Lemma key_lt_trans a b c : key_lt a b -> key_lt b c -> key_lt a c.
+Proof. destruct a as [[? ?] ?], b as [[? ?] ?], c as [[? ?] ?]. unfold key_lt. lia. Qed.
+
+Lemma key_lt_irrefl a : ~ key_lt a a.
+Proof. destruct a as [[? ?] ?]. unfold key_lt. lia. Qed.
+
+Lemma mu_lt_trans s a b c : scopes_ok s -> mu_lt s a b -> mu_lt s b c -> mu_lt s a c.
+Proof.
+  intros Hs H1 H2 ta da tc dc Ca Cc. destruct (chain_exists s Hs b) as (tb & db & Cb).
+  eapply key_lt_trans; [apply (H1 _ _ _ _ Ca Cb)|apply (H2 _ _ _ _ Cb Cc)].
+Qed.
+
+Lemma mu_lt_irrefl s a : scopes_ok s -> ~ mu_lt s a a.
+Proof.
+  intros Hs H. destruct (chain_exists s Hs a) as (t & d & C). exact (key_lt_irrefl _ (H _ _ _ _ C C)).
+Qed.
+
+Lemma dreach_mu s n m : Sta s -> dreach s n m -> m = n \/ mu_lt s m n.
+Proof.
+  intros St H. induction H as [|m q _ IH Hq]; [auto|]. right.
+  pose proof (sc_acyclic s (sta_scoping s St) m q Hq) as Hlt.
+  destruct IH as [->|IH]; [exact Hlt|]. eapply mu_lt_trans; [apply St|exact Hlt|exact IH].
+Qed.
+
+(* no declaration cycle through [n] *)
+Lemma no_cycle s n m : Sta s -> dreach s n m -> n ∈ decl (nd s m) -> False.
+Proof.
+  intros St H Hn. pose proof (sc_acyclic s (sta_scoping s St) m n Hn) as Hlt.
+  destruct (dreach_mu s n m St H) as [->|Hm].
+  - exact (mu_lt_irrefl s n (sta_scopes s St) Hlt).
+  - exact (mu_lt_irrefl s n (sta_scopes s St) (mu_lt_trans s n m n (sta_scopes s St) Hlt Hm)).
+Qed.
+
+Lemma no_cycle2 s a b : Sta s -> dreach s a b -> dreach s b a -> a = b.
+Proof.
+  intros St H1 H2. destruct H2 as [|m q H2 Hq]; [reflexivity|].
+  exfalso. apply (no_cycle s q m St); [|exact Hq]. eapply dreach_trans; [|exact H2].
+  exact H1.
+Qed.
+
+(* a node of the scope of [n] is not reachable from the lhs-change node [n] *)
+Lemma scope_reach s n m : Sta s -> dreach s n m -> scope (nd s m) = Some n -> False.
+Proof.
+  intros St H Hs.
+  assert (Hmain : dreach s n (S n)).
+  { induction H as [|m q H IH Hq].
+    - destruct (sta_scopes s St n n Hs) as [_ Hlt]. lia.
+    - destruct (sc_decl s (sta_scoping s St) m q Hq) as [E|[E|(b & Hk & Hb & _)]].
+      + congruence.
+      + apply IH. congruence.
+      + assert (b = n) as -> by congruence.
+        pose proof (sta_kinds s St m (has_decl s m q Hq)) as Hkm. rewrite Hk in Hkm.
+        destruct Hkm as [-> _]. exact H. }
+  destruct (sta_scopes s St m n Hs) as [[r Hr] _].
+  pose proof (bw_decl_main s n r (sta_binds s St n r Hr)) as Hd.
+  apply (no_cycle s n (S n) St Hmain). rewrite Hd. left.
+Qed.
+
+Lemma edges_ok_link s c p : edges_ok s -> has s c -> has s p -> edges_ok (link s c p).
+Proof.
+  intros H Hc Hp m q. rewrite parents_nd_link by exact Hc. rewrite children_nd_link by exact Hp.
+  destruct (decide (m = c)) as [->|Hm], (decide (q = p)) as [->|Hq]; rewrite ?count_app, ?count_singleton.
+  - rewrite !decide_True by reflexivity. rewrite (H c p). reflexivity.
+  - rewrite decide_False by congruence. rewrite (H c q). lia.
+  - rewrite decide_False by congruence. rewrite (H m p). lia.
+  - apply H.
+Qed.
+
+Lemma BInv_weaken X Y s : (forall m, m ∈ X -> m ∈ Y) -> BInv X s -> BInv Y s.
+Proof.
+  intros Hsub [b_edges0 b_zero10 b_zero20 b_nec0 b_par0 b_height0 b_heap0 b_count0 b_obs0 b_valid0 b_sreg0 b_log0 b_life0].
+  constructor; try assumption; intros m Hm; [apply b_zero20|apply b_nec0|apply b_par0|apply b_height0]; auto.
+Qed.
+
+Lemma BInv_close X s p :
+  BInv (p :: X) s ->
+  (inGraph (nd s p) = false -> children (nd s p) = [] /\ observers (nd s p) = []) ->
+  inGraph (nd s p) = isNecessary (nd s p) ->
+  (inGraph (nd s p) = true -> parents (nd s p) = decl (nd s p) /\ good_h s p) ->
+  BInv X s.
+Proof.
+  intros [b_edges0 b_zero10 b_zero20 b_nec0 b_par0 b_height0 b_heap0 b_count0 b_obs0 b_valid0 b_sreg0 b_log0 b_life0] H1 H2 H3.
+  assert (Hin : forall m, m ∉ X -> m = p \/ m ∉ p :: X).
+  { intros m Hm. destruct (decide (m = p)); [auto|right]. rewrite not_elem_of_cons. auto. }
+  constructor; try assumption.
+  - intros m Hm. destruct (Hin m Hm) as [->|Hm']; auto.
+  - intros m Hm. destruct (Hin m Hm) as [->|Hm']; auto.
+  - intros m Hm Hg. destruct (Hin m Hm) as [->|Hm']; [apply H3, Hg|auto].
+  - intros m Hm Hg. destruct (Hin m Hm) as [->|Hm']; [apply H3, Hg|auto].
+Qed.
+
+Lemma BInv_only_heap X s s' : only_heap s s' -> heap_ok s' -> BInv X s -> BInv X s'.
+Proof.
+  intros F Hk [b_edges0 b_zero10 b_zero20 b_nec0 b_par0 b_height0 b_heap0 b_count0 b_obs0 b_valid0 b_sreg0 b_log0 b_life0].
+  assert (Hnd : forall m, nd s' m = nd s m) by apply (oh_nd _ _ F).
+  constructor; try assumption.
+  - intros c p. rewrite !Hnd. apply b_edges0.
+  - intros m. rewrite !Hnd. apply b_zero10.
+  - intros m. rewrite !Hnd. apply b_zero20.
+  - intros m. rewrite !Hnd. apply b_nec0.
+  - intros m. rewrite !Hnd. apply b_par0.
+  - intros m Hm. rewrite Hnd. intros Hg. destruct (b_height0 m Hm Hg) as (H1 & H2 & H3).
+    unfold good_h. rewrite Hnd, (oh_maxHeight _ _ F). split; [exact H1|]. split.
+    + intros q. rewrite Hnd. apply H2.
+    + unfold scopeHeight in *. destruct (scope (nd s m)); [rewrite Hnd|]; exact H3.
+  - apply (count_ok_ext s s'); auto; [apply (oh_reg _ _ F)|apply (oh_obs _ _ F)|apply (oh_numNodes _ _ F)|].
+    intros m. rewrite Hnd. reflexivity.
+  - apply (obs_ok_ext s s'); auto; [apply (oh_obs _ _ F)|apply (oh_next _ _ F)|apply (oh_has _ _ F)| |];
+      intros m; rewrite Hnd; reflexivity.
+  - intros m. rewrite Hnd. apply b_valid0.
+  - intros m b. rewrite !Hnd. apply b_sreg0.
+  - rewrite (oh_log _ _ F). assumption.
+  - intros m. rewrite Hnd, (oh_log _ _ F). apply b_life0.
+Qed.
+
+Lemma BInv_link X s n p :
+  BInv (n :: X) s -> has s n -> has s p -> inGraph (nd s n) = true ->
+  BInv (p :: n :: X) (link s n p).
+Proof.
+  intros [b_edges0 b_zero10 b_zero20 b_nec0 b_par0 b_height0 b_heap0 b_count0 b_obs0 b_valid0 b_sreg0 b_log0 b_life0] Hn Hp Hgn.
+  set (s1 := link s n p).
+  assert (Hg : forall m, inGraph (nd s1 m) = inGraph (nd s m)) by (intros; apply inGraph_nd_link).
+  assert (Hh : forall m, height (nd s1 m) = height (nd s m)) by (intros; apply height_nd_link).
+  assert (Hpar : forall m, m <> n -> parents (nd s1 m) = parents (nd s m)).
+  { intros m Hm. unfold s1. rewrite parents_nd_link, decide_False by assumption. reflexivity. }
+  assert (Hchi : forall m, m <> p -> children (nd s1 m) = children (nd s m)).
+  { intros m Hm. unfold s1. rewrite children_nd_link, decide_False by assumption. reflexivity. }
+  assert (Hnin : forall m, m ∉ p :: n :: X -> m <> p /\ m <> n /\ m ∉ n :: X).
+  { intros m Hm. rewrite !not_elem_of_cons in Hm. rewrite not_elem_of_cons. tauto. }
+  constructor.
+  - apply edges_ok_link; assumption.
+  - intros m. rewrite Hg, Hh. intros Hm. rewrite Hpar; [apply b_zero10, Hm|]. intros ->. congruence.
+  - intros m Hm. destruct (Hnin m Hm) as (H1 & H2 & H3). rewrite Hg, Hchi by exact H1.
+    unfold s1. rewrite observers_nd_link. apply b_zero20, H3.
+  - intros m Hm. destruct (Hnin m Hm) as (H1 & H2 & H3). rewrite Hg.
+    rewrite (isNecessary_ext (nd s1 m) (nd s m));
+      [apply b_nec0, H3|apply forceNec_nd_link|apply Hchi, H1|apply observers_nd_link].
+  - intros m Hm. destruct (Hnin m Hm) as (H1 & H2 & H3). rewrite Hg, Hpar by exact H2.
+    unfold s1. rewrite decl_nd_link. apply b_par0, H3.
+  - intros m Hm. destruct (Hnin m Hm) as (H1 & H2 & H3). rewrite Hg. intros Hgm.
+    destruct (b_height0 m H3 Hgm) as (A & B & C). unfold good_h. rewrite Hh, Hpar by exact H2.
+    split; [exact A|]. split.
+    + intros q. rewrite Hh. apply B.
+    + unfold s1. rewrite scope_nd_link. unfold scopeHeight in *.
+      destruct (scope (nd s m)); [rewrite height_nd_link|]; exact C.
+  - apply (heap_ok_ext s s1); auto.
+  - apply (count_ok_ext s s1); auto.
+  - apply (obs_ok_ext s s1); auto; intros m; unfold s1; autorewrite with eng; try reflexivity. apply has_link.
+  - intros m. rewrite Hg. unfold s1. rewrite valid_nd_link. apply b_valid0.
+  - intros m b. rewrite !Hg. unfold s1. rewrite scope_nd_link. apply b_sreg0.
+  - exact b_log0.
+  - intros m. rewrite Hg. apply b_life0.
+Qed.
+
+Lemma BInv_raise X s n h s' :
+  BInv (n :: X) s -> has s n -> inGraph (nd s n) = true -> n ∉ Heap.ids (heap s) ->
+  (forall c, c ∈ children (nd s n) -> c ∈ n :: X) ->
+  (forall m, m ∉ n :: X -> inGraph (nd s m) = true -> scope (nd s m) <> Some n) ->
+  setHeight s n h = Ok (s', None) -> BInv (n :: X) s'.
+Proof.
+  intros [b_edges0 b_zero10 b_zero20 b_nec0 b_par0 b_height0 b_heap0 b_count0 b_obs0 b_valid0 b_sreg0 b_log0 b_life0]
+         Hn Hgn Hheap Hchi Hsc H.
+  assert (Hproj : forall {A} (g : node -> A), (forall x v, g (set height v x) = g x) -> forall m, g (nd s' m) = g (nd s m)).
+  { intros A g Hg m. apply (proj_nd_setHeight _ _ _ _ H g m Hg). }
+  assert (Hh : forall m, height (nd s' m) = if decide (m = n) then h else height (nd s m))
+    by (intros m; apply (height_nd_setHeight _ _ _ _ H m Hn)).
+  assert (Hg : forall m, inGraph (nd s' m) = inGraph (nd s m)) by (apply Hproj; reflexivity).
+  assert (Hp : forall m, parents (nd s' m) = parents (nd s m)) by (apply Hproj; reflexivity).
+  assert (Hc : forall m, children (nd s' m) = children (nd s m)) by (apply Hproj; reflexivity).
+  assert (Ho : forall m, observers (nd s' m) = observers (nd s m)) by (apply Hproj; reflexivity).
+  constructor.
+  - apply (edges_ok_ext s s'); auto.
+  - intros m. rewrite Hg, Hp, Hh. intros Hm. rewrite decide_False by (intros ->; congruence). apply b_zero10, Hm.
+  - intros m Hm. rewrite Hg, Hc, Ho. apply b_zero20, Hm.
+  - intros m Hm. rewrite Hg, (isNecessary_ext (nd s' m) (nd s m)); auto; apply Hproj; reflexivity.
+  - intros m Hm. rewrite Hg, Hp, (Hproj _ decl) by reflexivity. apply b_par0, Hm.
+  - intros m Hm. rewrite Hg. intros Hgm. destruct (b_height0 m Hm Hgm) as (A & B & C).
+    assert (Hmn : m <> n) by (intros ->; apply Hm; left).
+    unfold good_h. rewrite Hh, decide_False, Hp, (maxHeight_setHeight _ _ _ _ H) by exact Hmn.
+    split; [exact A|]. split.
+    + intros q Hq. rewrite Hh. destruct (decide (q = n)) as [->|]; [|apply B, Hq].
+      exfalso. apply Hm, Hchi. apply (edges_parent_child s m n b_edges0), Hq.
+    + rewrite (Hproj _ scope) by reflexivity. unfold scopeHeight in *.
+      destruct (scope (nd s m)) as [b|] eqn:Eb; [|exact C]. rewrite Hh.
+      destruct (decide (b = n)) as [->|]; [|exact C]. exfalso. exact (Hsc m Hm Hgm Eb).
+  - destruct b_heap0 as [Hi Hq]. unfold heap_ok. rewrite (heap_setHeight _ _ _ _ H). split; [exact Hi|].
+    intros m Hm. rewrite Hg, Hh. rewrite decide_False by (intros ->; contradiction). apply Hq, Hm.
+  - apply (count_ok_ext s s'); auto;
+      first [apply (reg_setHeight _ _ _ _ H)|apply (obs_setHeight _ _ _ _ H)|apply (numNodes_setHeight _ _ _ _ H)].
+  - apply (obs_ok_ext s s'); auto;
+      first [apply (obs_setHeight _ _ _ _ H)|apply (next_setHeight _ _ _ _ H)|apply (has_setHeight _ _ _ _ H)
+            |apply Hproj; reflexivity].
+  - intros m. rewrite Hg, (Hproj _ valid) by reflexivity. apply b_valid0.
+  - intros m b. rewrite !Hg, (Hproj _ scope) by reflexivity. apply b_sreg0.
+  - rewrite (log_setHeight _ _ _ _ H). exact b_log0.
+  - intros m. rewrite Hg, (log_setHeight _ _ _ _ H). apply b_life0.
+Qed.
+
+Lemma BInv_register X s n s3 :
+  BInv (n :: X) s -> has s n -> inGraph (nd s n) = false -> valid (nd s n) = true ->
+  (forall c, c ∈ children (nd s n) -> c ∈ X) ->
+  (forall b, scope (nd s n) = Some b -> inGraph (nd s b) = true) ->
+  scope (nd s n) <> Some n ->
+  0 <= scopeHeight s (scope (nd s n)) + 1 ->
+  setHeight (emit (EvNec n) (addNode s n)) n (scopeHeight s (scope (nd s n)) + 1) = Ok (s3, None) ->
+  BInv (n :: X) s3 /\ inGraph (nd s3 n) = true /\ parents (nd s3 n) = [] /\ good_h s3 n /\
+  n ∉ Heap.ids (heap s3) /\ (forall m, m <> n -> nd s3 m = nd s m) /\
+  children (nd s3 n) = children (nd s n) /\ heap s3 = heap s /\ invq s3 = invq s.
+Proof.
+  intros [b_edges0 b_zero10 b_zero20 b_nec0 b_par0 b_height0 b_heap0 b_count0 b_obs0 b_valid0 b_sreg0 b_log0 b_life0]
+         Hn Hgn Hvn Hchi Hsreg Hscn Hh0 H.
+  set (h0 := scopeHeight s (scope (nd s n)) + 1) in *.
+  set (s2 := emit (EvNec n) (addNode s n)) in *.
+  assert (Hn2 : has s2 n) by (apply has_addNode; exact Hn).
+  assert (E2 : forall m, nd s2 m = if decide (m = n) then set inGraph (fun _ => true) (nd s n) else nd s m).
+  { intros m. unfold s2. rewrite nd_emit. unfold addNode. rewrite Hgn.
+    change (nd (upd s n (set inGraph (fun _ => true))) m = if decide (m = n) then set inGraph (fun _ => true) (nd s n) else nd s m).
+    apply nd_upd, Hn. }
+  assert (E3 : forall m, nd s3 m = if decide (m = n) then set height (fun _ => h0) (set inGraph (fun _ => true) (nd s n)) else nd s m).
+  { intros m. rewrite (nd_setHeight _ _ _ _ H m Hn2), !E2. destruct (decide (m = n)) as [->|]; [|reflexivity].
+    rewrite decide_True by reflexivity. reflexivity. }
+  assert (Ene : forall m, m <> n -> nd s3 m = nd s m) by (intros m Hm; rewrite E3, decide_False by exact Hm; reflexivity).
+  assert (Hproj : forall {A} (g : node -> A), (forall x v, g (set height v x) = g x) ->
+                   (forall x v, g (set inGraph v x) = g x) -> forall m, g (nd s3 m) = g (nd s m)).
+  { intros A g G1 G2 m. rewrite E3. destruct (decide (m = n)) as [->|]; [rewrite G1, G2|]; reflexivity. }
+  assert (Hg : forall m, inGraph (nd s3 m) = if decide (m = n) then true else inGraph (nd s m)).
+  { intros m. rewrite E3. destruct (decide (m = n)); reflexivity. }
+  assert (Hh : forall m, height (nd s3 m) = if decide (m = n) then h0 else height (nd s m)).
+  { intros m. rewrite E3. destruct (decide (m = n)); reflexivity. }
+  assert (Hp : forall m, parents (nd s3 m) = parents (nd s m)) by (apply Hproj; reflexivity).
+  assert (Hc : forall m, children (nd s3 m) = children (nd s m)) by (apply Hproj; reflexivity).
+  assert (Hsc : forall m, scope (nd s3 m) = scope (nd s m)) by (apply Hproj; reflexivity).
+  assert (Hheap : heap s3 = heap s) by (rewrite (heap_setHeight _ _ _ _ H); unfold s2; autorewrite with eng; reflexivity).
+  assert (Hmh : maxHeight s3 = maxHeight s) by (rewrite (maxHeight_setHeight _ _ _ _ H); unfold s2; autorewrite with eng; reflexivity).
+  assert (Hlog : log s3 = EvNec n :: log s).
+  { rewrite (log_setHeight _ _ _ _ H). unfold s2. rewrite log_emit, log_addNode. reflexivity. }
+  assert (Hnin : forall m, m ∉ n :: X -> m <> n /\ m ∉ X) by (intros m Hm; rewrite not_elem_of_cons in Hm; exact Hm).
+  assert (Hpn : parents (nd s n) = []) by (apply b_zero10, Hgn).
+  assert (Hnheap : n ∉ Heap.ids (heap s)).
+  { intros Hin. destruct b_heap0 as [_ Hq]. destruct (Hq n Hin) as [Hq' _]. congruence. }
+  assert (Hreg : reg s3 = reg s ++ [n]).
+  { rewrite (reg_setHeight _ _ _ _ H). unfold s2. rewrite reg_emit, reg_addNode, Hgn. reflexivity. }
+  split; [|split; [|split; [|split; [|split; [|split; [|split; [|split]]]]]]].
+  - constructor.
+    + apply (edges_ok_ext s s3); auto.
+    + intros m. rewrite Hg. destruct (decide (m = n)) as [->|Hm]; [discriminate|].
+      rewrite Ene by exact Hm. apply b_zero10.
+    + intros m Hm. destruct (Hnin m Hm) as [Hm1 Hm2]. rewrite Ene by exact Hm1. apply b_zero20, Hm.
+    + intros m Hm. destruct (Hnin m Hm) as [Hm1 Hm2]. rewrite Ene by exact Hm1. apply b_nec0, Hm.
+    + intros m Hm. destruct (Hnin m Hm) as [Hm1 Hm2]. rewrite Ene by exact Hm1. apply b_par0, Hm.
+    + intros m Hm. destruct (Hnin m Hm) as [Hm1 Hm2]. rewrite Ene by exact Hm1. intros Hgm.
+      destruct (b_height0 m Hm Hgm) as (A & B & C). unfold good_h. rewrite Ene, Hmh by exact Hm1.
+      split; [exact A|]. split.
+      * intros q Hq. rewrite Hh. destruct (decide (q = n)) as [->|]; [|apply B, Hq].
+        exfalso. apply Hm2, Hchi. apply (edges_parent_child s m n b_edges0), Hq.
+      * unfold scopeHeight in *. destruct (scope (nd s m)) as [b|] eqn:Eb; [|exact C]. rewrite Hh.
+        destruct (decide (b = n)) as [->|]; [|exact C]. rewrite (b_sreg0 m n Hgm Eb) in Hgn. discriminate.
+    + destruct b_heap0 as [Hi Hq]. unfold heap_ok. rewrite Hheap. split; [exact Hi|].
+      intros m Hm. assert (m <> n) by (intros ->; contradiction). rewrite Ene by assumption. apply Hq, Hm.
+    + destruct b_count0 as [C1 C2 C3]. split.
+      * rewrite Hreg. apply NoDup_app. split; [exact C1|]. split; [|apply NoDup_singleton].
+        intros x Hx ->%elem_of_list_singleton. apply C2 in Hx. congruence.
+      * intros m. rewrite Hreg, elem_of_app, elem_of_list_singleton, Hg, C2.
+        destruct (decide (m = n)) as [->|]; [tauto|]. split; [intros [?|?]; [assumption|contradiction]|auto].
+      * rewrite Hreg, app_length. cbn [length].
+        rewrite (numNodes_setHeight _ _ _ _ H). unfold s2. rewrite numNodes_emit, numNodes_addNode, Hgn.
+        rewrite (obs_setHeight _ _ _ _ H). unfold s2. rewrite obs_emit, obs_addNode. lia.
+    + apply (obs_ok_ext s s3); auto;
+        first [rewrite (obs_setHeight _ _ _ _ H); unfold s2; autorewrite with eng; reflexivity
+              |rewrite (next_setHeight _ _ _ _ H); unfold s2; autorewrite with eng; reflexivity
+              |intros m; rewrite (has_setHeight _ _ _ _ H); unfold s2; apply has_addNode
+              |apply Hproj; reflexivity].
+    + intros m. rewrite Hg, (Hproj _ valid) by reflexivity. destruct (decide (m = n)) as [->|]; [auto|apply b_valid0].
+    + intros m b. rewrite !Hg, Hsc. intros Hm Hb.
+      assert (inGraph (nd s b) = true) as Hb'.
+      { destruct (decide (m = n)) as [->|]; [apply Hsreg, Hb|apply (b_sreg0 m b Hm Hb)]. }
+      destruct (decide (b = n)); [reflexivity|exact Hb'].
+    + rewrite Hlog. split; [|exact b_log0]. cbn. intros E. apply b_life0 in E. congruence.
+    + intros m. rewrite Hg, Hlog. cbn. destruct (decide (n = m)) as [->|Hne].
+      * rewrite decide_True by reflexivity. tauto.
+      * rewrite decide_False by congruence. apply b_life0.
+  - rewrite Hg, decide_True by reflexivity. reflexivity.
+  - rewrite Hp. exact Hpn.
+  - unfold good_h. rewrite Hh, decide_True, Hp, Hpn, Hmh by reflexivity. split; [|split].
+    + split; [exact Hh0|]. pose proof (setHeight_le _ _ _ _ H) as Hle.
+      assert (maxHeight s2 = maxHeight s) as Em by (unfold s2; autorewrite with eng; reflexivity). lia.
+    + intros q Hq. inversion Hq.
+    + rewrite Hsc. unfold h0, scopeHeight. destruct (scope (nd s n)) as [b|] eqn:Eb; [|lia].
+      rewrite Hh, decide_False by congruence. lia.
+  - rewrite Hheap. exact Hnheap.
+  - exact Ene.
+  - apply Hc.
+  - exact Hheap.
+  - rewrite (invq_setHeight _ _ _ _ H). unfold s2. autorewrite with eng. reflexivity.
+Qed.
+
+Record bn_post (X : list nid) (s : state) (n : nid) (s' : state) : Prop := {
+  bp_inv : BInv X s';
+  bp_invq : invq s' = invq s;
+  bp_reg : inGraph (nd s' n) = true;
+  bp_height : forall m, inGraph (nd s m) = true -> height (nd s' m) = height (nd s m);
+  bp_heap : forall m, m ∈ Heap.ids (heap s') -> m ∈ Heap.ids (heap s) \/ dreach s n m;
+  bp_new : forall m, inGraph (nd s' m) = true -> inGraph (nd s m) = true \/ dreach s n m
+}.
+
+Definition BN_spec (fuel : nat) : Prop :=
+  forall s n X s' e,
+    Sta s -> BInv (n :: X) s -> has s n -> inGraph (nd s n) = false ->
+    isNecessary (nd s n) = true -> valid (nd s n) = true ->
+    (forall c, c ∈ children (nd s n) -> c ∈ X) ->
+    (forall b, scope (nd s n) = Some b -> inGraph (nd s b) = true) ->
+    (forall x, x ∈ X -> exists m, dreach s x m /\ n ∈ decl (nd s m)) ->
+    becameNecessaryRecursive fuel s n = Ok (s', e) ->
+    match e with None => bn_post X s n s' | Some x => x = EHeightLimit end.
+
+(** the loop invariant of [becameNecessaryRecursive s n] over the declared inputs of [n] *)
+Record BJ (s : state) (n : nid) (X : list nid) (rest : list nid) (st : state) : Prop := {
+  j_inv : BInv (n :: X) st;
+  j_frame : bn_frame s st;
+  j_touch : forall m, ~ dreach s n m -> nd st m = nd s m;
+  j_invq : invq st = invq s;
+  j_reg : inGraph (nd st n) = true;
+  j_par : parents (nd st n) ++ rest = decl (nd s n);
+  j_h : 0 <= height (nd st n) < maxHeight st;
+  j_hs : scopeHeight st (scope (nd st n)) < height (nd st n);
+  j_hp : forall q, q ∈ parents (nd st n) -> inGraph (nd st q) = true /\ height (nd st q) < height (nd st n);
+  j_chi : children (nd st n) = children (nd s n);
+  j_heapn : n ∉ Heap.ids (heap st);
+  j_height : forall m, inGraph (nd s m) = true -> height (nd st m) = height (nd s m);
+  j_heap : forall m, m ∈ Heap.ids (heap st) -> m ∈ Heap.ids (heap s) \/ dreach s n m;
+  j_new : forall m, inGraph (nd st m) = true -> inGraph (nd s m) = true \/ dreach s n m
+}.
+
+Lemma scopeHeight_ext s s' sc : (forall m, height (nd s' m) = height (nd s m)) -> scopeHeight s' sc = scopeHeight s sc.
+Proof. intros H. unfold scopeHeight. destruct sc; [apply H|reflexivity]. Qed.
+
+Lemma good_h_ext s s' m :
+  maxHeight s' = maxHeight s -> parents (nd s' m) = parents (nd s m) -> scope (nd s' m) = scope (nd s m) ->
+  (forall q, height (nd s' q) = height (nd s q)) -> good_h s m -> good_h s' m.
+Proof.
+  intros Hm Hp Hs Hh (A & B & C). unfold good_h. rewrite Hm, Hp, Hs, Hh. split; [exact A|]. split.
+  - intros q. rewrite Hh. apply B.
+  - rewrite (scopeHeight_ext s s') by exact Hh. exact C.
+Qed.
+
+Section bn_iter.
+  Context (fuel : nat) (IH : BN_spec fuel).
+  Context (s : state) (n : nid) (X : list nid).
+  Hypothesis (St : Sta s) (Hn : has s n) (Hgn : inGraph (nd s n) = false) (Hvn : valid (nd s n) = true).
+  Hypothesis (Hchi : forall c, c ∈ children (nd s n) -> c ∈ X).
+  Hypothesis (HX : forall x, x ∈ X -> exists m, dreach s x m /\ n ∈ decl (nd s m)).
+  Hypothesis (Hsregn : forall m, inGraph (nd s m) = true -> scope (nd s m) <> Some n).
+
+  Lemma bn_iter p rest st st' e :
+    BJ s n X (p :: rest) st -> bn_body fuel n st p = Ok (st', e) ->
+    match e with None => BJ s n X rest st' | Some x => x = EHeightLimit end.
+  Proof.
+    intros J H.
+    pose proof (j_frame _ _ _ _ _ J) as F.
+    pose proof (Sta_bn_frame s st F St) as Sst.
+    assert (Hd : forall m, decl (nd st m) = decl (nd s m)) by (intros m; apply (bf_static _ _ F m)).
+    assert (Hsc : forall m, scope (nd st m) = scope (nd s m)) by (intros m; apply (bf_static _ _ F m)).
+    assert (Hvv : forall m, valid (nd st m) = valid (nd s m)) by (intros m; apply (bf_static _ _ F m)).
+    assert (Hhas : forall m, has st m <-> has s m) by apply F.
+    assert (Hdr : forall a b, dreach st a b -> dreach s a b).
+    { intros a b. apply dreach_ext. intros x. symmetry. apply Hd. }
+    assert (Hdr' : forall a b, dreach s a b -> dreach st a b) by (intros a b; apply dreach_ext, Hd).
+    assert (Hpd : p ∈ decl (nd s n)).
+    { rewrite <- (j_par _ _ _ _ _ J). apply elem_of_app. right. left. }
+    assert (Hp : has s p) by (apply (io_decl s (sta_ids s St) n p Hpd)).
+    assert (Hvp : valid (nd s p) = true) by (apply (sta_vc s St n p Hvn Hpd)).
+    assert (Hpn : p <> n).
+    { intros ->. apply (no_cycle s n n St (dr_refl s n) Hpd). }
+    assert (HpX : p ∉ n :: X).
+    { rewrite not_elem_of_cons. split; [exact Hpn|]. intros Hx. destruct (HX p Hx) as (m & Hm1 & Hm2).
+      apply (no_cycle s n m St); [|exact Hm2]. eapply dreach_decl; eauto. }
+    assert (Hnp : ~ dreach s p n).
+    { intros Hr. assert (p = n); [|contradiction]. symmetry. apply (no_cycle2 s n p St); [|exact Hr].
+      eapply dr_step; [apply dr_refl|exact Hpd]. }
+    destruct J as [Jinv _ Jtouch Jinvq Jreg Jpar Jh Jhs Jhp Jchi Jheapn Jheight Jheap Jnew].
+    unfold bn_body in H. set (st1 := link st n p) in *.
+    assert (Hv1 : valid (nd st1 p) = true) by (unfold st1; rewrite valid_nd_link, Hvv; exact Hvp).
+    rewrite Hv1 in H.
+    assert (Hn' : has st n) by (apply Hhas, Hn). assert (Hp' : has st p) by (apply Hhas, Hp).
+    pose proof (BInv_link X st n p Jinv Hn' Hp' Jreg) as B1.
+    assert (F1 : bn_frame st st1) by apply bn_frame_link.
+    assert (Hpar1 : parents (nd st1 n) = parents (nd st n) ++ [p]).
+    { unfold st1. rewrite parents_nd_link, decide_True by auto. reflexivity. }
+    assert (Hchi1 : children (nd st1 p) = children (nd st p) ++ [n]).
+    { unfold st1. rewrite children_nd_link, decide_True by auto. reflexivity. }
+    assert (Hh1 : forall m, height (nd st1 m) = height (nd st m)) by (intros; apply height_nd_link).
+    assert (Hg1 : forall m, inGraph (nd st1 m) = inGraph (nd st m)) by (intros; apply inGraph_nd_link).
+    apply ebind_inv in H as (st3 & e3 & H3 & Hrest).
+    (* the state after the input has been made necessary *)
+    assert (Mid : match e3 with
+                  | Some x => x = EHeightLimit
+                  | None => BInv (n :: X) st3 /\ bn_frame st1 st3 /\ nd st3 n = nd st1 n /\
+                            (forall m, m <> p -> ~ dreach s p m -> nd st3 m = nd st1 m) /\
+                            invq st3 = invq st1 /\ inGraph (nd st3 p) = true /\
+                            (forall m, inGraph (nd st1 m) = true -> height (nd st3 m) = height (nd st1 m)) /\
+                            (forall m, m ∈ Heap.ids (heap st3) -> m ∈ Heap.ids (heap st1) \/ dreach s p m) /\
+                            (forall m, inGraph (nd st3 m) = true -> inGraph (nd st1 m) = true \/ dreach s p m)
+                  end).
+    { destruct (isNecessary (nd st p)) eqn:Enec.
+      - apply ok_inv in H3 as [-> ->].
+        assert (Hgp : inGraph (nd st p) = true) by (rewrite (b_nec _ _ Jinv p HpX); exact Enec).
+        split; [|split; [apply bn_frame_refl|repeat split; auto]]; [|rewrite Hg1; exact Hgp].
+        apply (BInv_close (n :: X) st1 p B1).
+        + rewrite Hg1, Hgp. discriminate.
+        + rewrite Hg1, Hgp. symmetry. apply isNecessary_true. right; left. rewrite Hchi1.
+          intros E. apply app_eq_nil in E as [_ E]. discriminate.
+        + intros _. split.
+          * unfold st1. rewrite parents_nd_link by exact Hn'. rewrite decide_False by exact Hpn.
+            rewrite decl_nd_link. apply (b_par _ _ Jinv p HpX Hgp).
+          * apply (good_h_ext st st1); auto; unfold st1; autorewrite with eng; try reflexivity.
+            -- rewrite parents_nd_link by exact Hn'. rewrite decide_False by exact Hpn. reflexivity.
+            -- apply (b_height _ _ Jinv p HpX Hgp).
+      - assert (Hgp : inGraph (nd st p) = false) by (rewrite (b_nec _ _ Jinv p HpX); exact Enec).
+        assert (St1 : Sta st1) by (apply (Sta_bn_frame st st1 F1 Sst)).
+        assert (Hd1 : forall m, decl (nd st1 m) = decl (nd s m)).
+        { intros m. unfold st1. rewrite decl_nd_link. apply Hd. }
+        assert (Hdr1 : forall a b, dreach s a b -> dreach st1 a b) by (intros a b; apply dreach_ext, Hd1).
+        assert (Hdr1' : forall a b, dreach st1 a b -> dreach s a b).
+        { intros a b. apply dreach_ext. intros x. symmetry. apply Hd1. }
+        specialize (IH st1 p (n :: X) st3 e3 St1 B1).
+        assert (Post : match e3 with None => bn_post (n :: X) st1 p st3 | Some x => x = EHeightLimit end).
+        { apply IH; try assumption.
+          - apply has_link, Hp'.
+          - rewrite Hg1. exact Hgp.
+          - apply isNecessary_true. right; left. rewrite Hchi1.
+            intros E. apply app_eq_nil in E as [_ E]. discriminate.
+          - intros c. rewrite Hchi1. destruct (b_zero2 _ _ Jinv p HpX Hgp) as [-> _].
+            intros ->%elem_of_list_singleton. left.
+          - (* the scope of p is registered *)
+            intros b Hb. rewrite Hg1. unfold st1 in Hb. rewrite scope_nd_link, Hsc in Hb.
+            destruct (sc_decl s (sta_scoping s St) n p Hpd) as [E|[E|(b' & Hk & Hb' & Hr)]].
+            + congruence.
+            + apply (b_sreg _ _ Jinv n b Jreg). rewrite Hsc. congruence.
+            + assert (b' = b) as -> by congruence.
+              pose proof (sta_kinds s St n Hn) as Hkn. rewrite Hk in Hkn. destruct Hkn as [-> [r Hr']].
+              pose proof (bw_decl_main s b r (sta_binds s St b r Hr')) as Hdm.
+              unfold bd in Hr. rewrite Hr' in Hr. simpl in Hr. rewrite Hr in Hdm. simpl in Hdm.
+              assert (Hbp : b ∈ parents (nd st (S b))).
+              { rewrite Hdm in Jpar. destruct (parents (nd st (S b))) as [|y l]; simpl in Jpar.
+                - injection Jpar as Hpb _. destruct (sta_scopes s St p b Hb) as [_ Hlt]. lia.
+                - injection Jpar as -> _. left. }
+              apply (Jhp b Hbp).
+          - intros x [->|Hx]%elem_of_cons.
+            + exists n. split; [apply dr_refl|]. rewrite Hd1. exact Hpd.
+            + destruct (HX x Hx) as (m & Hm1 & Hm2). exists n. split; [|rewrite Hd1; exact Hpd].
+              apply Hdr1. eapply dr_step; eauto. }
+        destruct e3 as [x|]; [exact Post|].
+        destruct (BN_frame fuel st1 p st3 None H3) as [F3 T3].
+        destruct Post as [P1 P2 P3 P4 P5 P6].
+        split; [exact P1|]. split; [exact F3|]. split; [|split; [|split; [exact P2|split; [exact P3|split; [exact P4|split]]]]].
+        + apply T3. intros Hr. apply Hnp, Hdr1', Hr.
+        + intros m _ Hr. apply T3. intros Hr'. apply Hr, Hdr1', Hr'.
+        + intros m Hm. destruct (P5 m Hm) as [?|Hr]; [auto|right; apply Hdr1', Hr].
+        + intros m Hm. destruct (P6 m Hm) as [?|Hr]; [auto|right; apply Hdr1', Hr]. }
+    destruct Hrest as [[-> H4]|(Hne & -> & ->)].
+    2:{ destruct e3 as [x|]; [exact Mid|congruence]. }
+    destruct Mid as (B3 & F3 & En3 & T3 & Iq3 & Gp3 & Hh3 & Hp3 & Hn3).
+    assert (F03 : bn_frame s st3) by (eapply bn_frame_trans; [exact F|eapply bn_frame_trans; eauto]).
+    (* facts about n in st3 *)
+    assert (Hpar3 : parents (nd st3 n) = parents (nd st n) ++ [p]) by (rewrite En3; exact Hpar1).
+    assert (Hhn3 : height (nd st3 n) = height (nd st n)) by (rewrite En3; apply Hh1).
+    assert (Hgn3 : inGraph (nd st3 n) = true) by (rewrite En3, Hg1; exact Jreg).
+    assert (Hchi3 : children (nd st3 n) = children (nd s n)).
+    { rewrite En3. unfold st1. rewrite children_nd_link by exact Hp'. rewrite decide_False by congruence. exact Jchi. }
+    assert (Hheap3 : n ∉ Heap.ids (heap st3)).
+    { intros Hin. destruct (Hp3 n Hin) as [Hin'|Hr]; [|exact (Hnp Hr)]. apply Jheapn. exact Hin'. }
+    assert (Hmono13 : forall m, inGraph (nd st m) = true -> inGraph (nd st3 m) = true).
+    { intros m Hm. apply (bf_mono _ _ F3). rewrite Hg1. exact Hm. }
+    assert (Hold : forall q, q ∈ parents (nd st n) -> inGraph (nd st3 q) = true /\ height (nd st3 q) = height (nd st q)).
+    { intros q Hq. destruct (Jhp q Hq) as [Hgq _]. split; [apply Hmono13, Hgq|].
+      rewrite Hh3 by (rewrite Hg1; exact Hgq). apply Hh1. }
+    assert (Hsc3 : scope (nd st3 n) = scope (nd st n)).
+    { rewrite En3. unfold st1. apply scope_nd_link. }
+    assert (Hscb3 : forall b, scope (nd st n) = Some b -> height (nd st3 b) = height (nd st b) /\ b <> n).
+    { intros b Eb. split.
+      - rewrite Hh3 by (rewrite Hg1; apply (b_sreg _ _ Jinv n b Jreg Eb)). apply Hh1.
+      - intros ->. rewrite Hsc in Eb. destruct (sta_scopes s St n n Eb) as [_ Hlt]. lia. }
+    assert (Hnew3 : forall m, inGraph (nd st3 m) = true -> inGraph (nd s m) = true \/ dreach s n m).
+    { intros m Hm. destruct (Hn3 m Hm) as [Hm'|Hr].
+      - rewrite Hg1 in Hm'. apply Jnew, Hm'.
+      - right. eapply dreach_decl; eauto. }
+    assert (Hmh3 : maxHeight st3 = maxHeight st) by (rewrite (bf_maxHeight _ _ F3); reflexivity).
+    (* the common conclusion, given the final height of n *)
+    assert (Fin : forall st', (forall m, m <> n -> nd st' m = nd st3 m) ->
+              bn_frame st3 st' -> BInv (n :: X) st' -> heap st' = heap st3 -> invq st' = invq st3 ->
+              parents (nd st' n) = parents (nd st3 n) -> children (nd st' n) = children (nd st3 n) ->
+              inGraph (nd st' n) = true -> scope (nd st' n) = scope (nd st3 n) ->
+              height (nd st3 n) <= height (nd st' n) < maxHeight st' ->
+              height (nd st3 p) < height (nd st' n) ->
+              BJ s n X rest st').
+    { intros st'' Ene F' B' Hw' Hq' Hpar' Hchi' Hg' Hsc' Hhn' Hhp'.
+      assert (Hhne : forall m, m <> n -> height (nd st'' m) = height (nd st3 m)) by (intros m Hm; rewrite Ene by exact Hm; reflexivity).
+      constructor.
+      - exact B'.
+      - eapply bn_frame_trans; eauto.
+      - intros m Hr. assert (m <> n) by (intros ->; apply Hr, dr_refl).
+        assert (m <> p) by (intros ->; apply Hr; eapply dr_step; [apply dr_refl|exact Hpd]).
+        rewrite Ene by assumption. rewrite T3; [|assumption|intros Hr'; apply Hr; eapply dreach_decl; eauto].
+        unfold st1. rewrite nd_link_ne by assumption. apply Jtouch, Hr.
+      - rewrite Hq', Iq3. unfold st1. rewrite invq_link. exact Jinvq.
+      - exact Hg'.
+      - rewrite Hpar', Hpar3, <- app_assoc. exact Jpar.
+      - split; [lia|apply Hhn'].
+      - rewrite Hsc', Hsc3. unfold scopeHeight in *. destruct (scope (nd st n)) as [b|] eqn:Eb; [|lia].
+        destruct (Hscb3 b eq_refl) as [Hb1 Hb2]. rewrite Hhne by exact Hb2. rewrite Hb1. lia.
+      - intros q. rewrite Hpar', Hpar3, elem_of_app, elem_of_list_singleton. intros [Hq| ->].
+        + destruct (Hold q Hq) as [Hgq Hhq]. destruct (Jhp q Hq) as [_ Hlt].
+          assert (q <> n).
+          { intros ->. apply (no_cycle s n n St (dr_refl s n)). rewrite <- Jpar. apply elem_of_app. left. exact Hq. }
+          split; [apply (bf_mono _ _ F'), Hgq|]. rewrite Hhne by assumption. lia.
+        + split; [apply (bf_mono _ _ F'), Gp3|]. rewrite Hhne by exact Hpn. exact Hhp'.
+      - rewrite Hchi'. exact Hchi3.
+      - rewrite Hw'. exact Hheap3.
+      - intros m Hm. assert (m <> n) by (intros ->; congruence).
+        rewrite Hhne by assumption. rewrite Hh3.
+        + rewrite Hh1. apply Jheight, Hm.
+        + rewrite Hg1. apply (bf_mono _ _ F), Hm.
+      - intros m. rewrite Hw'. intros Hm. destruct (Hp3 m Hm) as [Hm'|Hr].
+        + apply Jheap. exact Hm'.
+        + right. eapply dreach_decl; eauto.
+      - intros m Hm. destruct (decide (m = n)) as [->|Hmn]; [right; apply dr_refl|].
+        apply Hnew3. rewrite <- Ene by exact Hmn. exact Hm. }
+    destruct (Z.geb_spec (height (nd st3 p)) (height (nd st3 n))) as [Hge|Hlt].
+    - destruct e as [x|]; [apply setHeight_err in H4 as [-> _]; reflexivity|].
+      assert (Hn3' : has st3 n) by (apply (bf_has _ _ F03), Hn).
+      apply Fin.
+      + intros m Hm. apply (nd_setHeight_ne _ _ _ _ m H4 Hm).
+      + apply (bn_frame_setHeight _ _ _ _ _ H4).
+      + eapply (BInv_raise X st3 n); [exact B3|exact Hn3'|exact Hgn3|exact Hheap3| | |exact H4].
+        * intros c. rewrite Hchi3. intros Hc. right. apply Hchi, Hc.
+        * intros m Hm Hgm Hs. rewrite (proj1 (proj2 (proj2 (bf_static _ _ F03 m)))) in Hs.
+          destruct (Hnew3 m Hgm) as [Hg0|Hr]; [exact (Hsregn m Hg0 Hs)|exact (scope_reach s n m St Hr Hs)].
+      + apply (heap_setHeight _ _ _ _ H4).
+      + apply (invq_setHeight _ _ _ _ H4).
+      + apply (proj_nd_setHeight _ _ _ _ H4 parents). reflexivity.
+      + apply (proj_nd_setHeight _ _ _ _ H4 children). reflexivity.
+      + rewrite (proj_nd_setHeight _ _ _ _ H4 inGraph) by reflexivity. exact Hgn3.
+      + apply (proj_nd_setHeight _ _ _ _ H4 scope). reflexivity.
+      + rewrite (height_nd_setHeight _ _ _ _ H4 n Hn3'), decide_True by reflexivity.
+        pose proof (setHeight_le _ _ _ _ H4). rewrite (maxHeight_setHeight _ _ _ _ H4). lia.
+      + rewrite (height_nd_setHeight _ _ _ _ H4 n Hn3'), decide_True by reflexivity. lia.
+    - apply ok_inv in H4 as [-> ->]. apply Fin; auto.
+      + apply bn_frame_refl.
+      + rewrite Hhn3, Hmh3. split; [lia|apply Jh].
+  Qed.
+End bn_iter.
+
+Lemma BN_spec_all fuel : BN_spec fuel.
+Proof.
+  induction fuel as [|fuel IH]; intros s n X s' e St B Hn Hgn Hnec Hvn Hchi Hsreg HX H; [discriminate|].
+  rewrite BN_S in H. cbn zeta in H. rewrite Hgn in H.
+  set (s2 := emit (EvNec n) (addNode s n)) in *.
+  assert (Eh : scopeHeight s2 (scope (nd s2 n)) = scopeHeight s (scope (nd s n))).
+  { unfold s2. rewrite nd_emit, scope_nd_addNode. apply scopeHeight_ext.
+    intros m. rewrite nd_emit. apply height_nd_addNode. }
+  rewrite Eh in H.
+  apply ebind_inv in H as (s3 & e3 & H3 & Hrest).
+  destruct e3 as [x|].
+  { apply setHeight_err in H3 as [-> _]. destruct Hrest as [[? _]|(_ & _ & ->)]; [discriminate|reflexivity]. }
+  destruct Hrest as [[_ H]|(Hne & _)]; [|congruence].
+  assert (Hscn : scope (nd s n) <> Some n).
+  { intros E. destruct (sta_scopes s St n n E) as [_ Hlt]. lia. }
+  assert (Hh0 : 0 <= scopeHeight s (scope (nd s n)) + 1).
+  { unfold scopeHeight. destruct (scope (nd s n)) as [b|] eqn:Eb; [|unfold unset; lia].
+    assert (Hb : b ∉ n :: X).
+    { rewrite not_elem_of_cons. split; [congruence|]. intros Hx. destruct (HX b Hx) as (m & Hm1 & Hm2).
+      apply (scope_reach s b n St); [eapply dr_step; eauto|exact Eb]. }
+    destruct (b_height _ _ B b Hb (Hsreg b eq_refl)) as (A & _). lia. }
+  destruct (BInv_register X s n s3 B Hn Hgn Hvn Hchi Hsreg Hscn Hh0 H3)
+    as (B3 & Hg3 & Hp3 & Hgood3 & Hheap3 & Ene3 & Hchi3 & Hw3 & Hq3).
+  assert (F3 : bn_frame s s3).
+  { eapply bn_frame_trans; [apply bn_frame_addNode|]. eapply bn_frame_trans; [apply bn_frame_emit|].
+    apply (bn_frame_setHeight _ _ _ _ _ H3). }
+  assert (Hsregn : forall m, inGraph (nd s m) = true -> scope (nd s m) <> Some n).
+  { intros m Hm E. rewrite (b_sreg _ _ B m n Hm E) in Hgn. discriminate. }
+  assert (J3 : BJ s n X (decl (nd s n)) s3).
+  { destruct Hgood3 as (A & Bq & C). constructor; auto.
+    - intros m Hr. apply Ene3. intros ->. apply Hr, dr_refl.
+    - rewrite Hp3. reflexivity.
+    - rewrite Hp3. intros q Hq. inversion Hq.
+    - intros m Hm. rewrite Ene3; [reflexivity|]. intros ->. congruence.
+    - intros m. rewrite Hw3. auto.
+    - intros m Hm. destruct (decide (m = n)) as [->|Hne]; [right; apply dr_refl|].
+      left. rewrite <- Ene3 by exact Hne. exact Hm. }
+  assert (Hd3 : decl (nd s3 n) = decl (nd s n)) by apply (bf_static _ _ F3 n).
+  rewrite Hd3 in H.
+  apply ebind_inv in H as (s4 & e4 & H4 & Hrest).
+  pose proof (efold_inv (BJ s n X) (fun _ x => x = EHeightLimit) (bn_body fuel n) _ _ _ _ J3
+                (fun p rest st st' e1 J Hb => bn_iter fuel IH s n X St Hn Hgn Hvn Hchi HX Hsregn p rest st st' e1 J Hb) H4) as L.
+  destruct e4 as [x|].
+  { destruct Hrest as [[? _]|(_ & _ & ->)]; [discriminate|exact L]. }
+  destruct Hrest as [[_ H]|(Hne & _)]; [|congruence].
+  destruct L as [Jinv Jframe Jtouch Jinvq Jreg Jpar Jh Jhs Jhp Jchi Jheapn Jheight Jheap Jnew].
+  rewrite app_nil_r in Jpar.
+  assert (B4 : BInv X s4).
+  { apply (BInv_close X s4 n Jinv).
+    - rewrite Jreg. discriminate.
+    - rewrite Jreg. symmetry. rewrite <- Hnec. apply isNecessary_ext; [| exact Jchi |]; apply (bf_static _ _ Jframe n).
+    - intros _. split.
+      + rewrite Jpar. symmetry. apply (bf_static _ _ Jframe n).
+      + split; [exact Jh|]. split; [|exact Jhs]. intros q Hq. apply Jhp, Hq. }
+  assert (Post4 : forall s5, only_heap s4 s5 -> heap_ok s5 ->
+             (forall m, m ∈ Heap.ids (heap s5) -> m = n \/ m ∈ Heap.ids (heap s4)) -> bn_post X s n s5).
+  { intros s5 F5 Hk5 Hids. constructor.
+    - apply (BInv_only_heap X s4 s5 F5 Hk5 B4).
+    - rewrite (oh_invq _ _ F5). exact Jinvq.
+    - rewrite (oh_nd _ _ F5). exact Jreg.
+    - intros m Hm. rewrite (oh_nd _ _ F5). apply Jheight, Hm.
+    - intros m Hm. destruct (Hids m Hm) as [->|Hm']; [right; apply dr_refl|apply Jheap, Hm'].
+    - intros m. rewrite (oh_nd _ _ F5). apply Jnew. }
+  destruct (isStale s4 n).
+  - apply lift_inv in H as [H ->].
+    destruct (heap_ok_heapAddIfNotPresent s4 n s' (b_heap _ _ B4) Jreg ltac:(lia) H) as [F5 Hk5].
+    apply Post4; [exact F5|exact Hk5|].
+    destruct (heapAddIfNotPresent_spec s4 n s' (proj1 (b_heap _ _ B4)) ltac:(lia) H) as (_ & _ & Hids & _).
+    intros m Hm. apply Hids, Hm.
+  - apply ok_inv in H as [-> ->]. apply Post4; [apply only_heap_refl|apply B4|auto].
+Qed.
